@@ -6,7 +6,7 @@
    Part 5  the reader on a rendered logical state = the logical reader        (no induction on histories)
    Part 6  the logical state of a replayed history vs the abstract semantics  (induction over unbounded histories)
    Part 7  main theorems, refutation witness *)
-From Coq Require Import String Ascii.
+From Coq Require Import String Ascii Sorted.
 From QV Require Import Base.Util C17.Model.
 Local Open Scope Z_scope.
 
@@ -93,17 +93,6 @@ Lemma digits_no_byte c s : Forall is_digit s -> ~ (48 <= c <= 57) -> no_byte c s
 Proof.
   intros H Hc. apply no_byte_spec. intros Hin. rewrite Forall_forall in H. apply H in Hin. unfold is_digit in Hin. lia.
 Qed.
-Lemma decb_nonempty n : decb n <> [].
-Proof.
-  unfold decb. destruct (Nat.to_uint n) eqn:E; cbn; try discriminate.
-  exfalso. pose proof (DecimalNat.Unsigned.of_to n) as H. rewrite E in H. cbn in H.
-  (* Nat.to_uint never yields Nil *)
-  clear H. unfold Nat.to_uint in E. destruct n; cbn in E; [discriminate|].
-  revert E. generalize (Decimal.D0 Decimal.Nil). induction n; intros u E; cbn in E.
-  - destruct u; discriminate.
-  - apply (IHn _ E).
-Qed.
-
 (* trim / trim_start_matches('v') leave a digit string alone *)
 Lemma trim_start_digit s : match s with c :: _ => is_ws c = false | [] => True end -> trim_start s = s.
 Proof. destruct s as [|c s]; cbn; [reflexivity|]. intros ->. reflexivity. Qed.
@@ -147,6 +136,9 @@ Qed.
 Lemma trim_dslash_abs b r : b <> slash -> trim_dslash (slash :: b :: r) = slash :: b :: r.
 Proof. intros H. cbn [trim_dslash]. destruct (Z.eqb_spec b slash); [contradiction|]. now rewrite andb_false_r. Qed.
 
+Lemma trim_dslash_2 s : trim_dslash (slash :: slash :: s) = trim_dslash s.
+Proof. reflexivity. Qed.
+
 (* the four accepted URI forms all resolve to the same absolute path *)
 Lemma resolve_uri_forms f dir rel : good_dir dir = true -> good_rel rel ->
   resolve_uri (uri_of f dir rel) dir = Ok (absp dir rel).
@@ -157,7 +149,7 @@ Proof.
   { unfold absp. rewrite no_byte_app, Hc. cbn [no_byte forallb andb]. exact Hr1. }
   unfold resolve_uri. destruct f; cbn [uri_of].
   - change (bs "file://") with (bs "file:" ++ [slash; slash]). rewrite <- app_assoc, strip_prefix_app.
-    rewrite Habs. cbn [app]. cbn [trim_dslash]. rewrite Z.eqb_refl. cbn [andb].
+    rewrite Habs. cbn [app]. rewrite trim_dslash_2.
     rewrite trim_dslash_abs by assumption. cbn [is_abs]. now rewrite Z.eqb_refl.
   - rewrite strip_prefix_app. rewrite Habs. rewrite trim_dslash_abs by assumption. cbn [is_abs]. now rewrite Z.eqb_refl.
   - rewrite strip_file_none by assumption. rewrite contains_scheme_false by assumption.
@@ -175,4 +167,1279 @@ Lemma resolve_uri_ok_not_remote uri dir p : resolve_uri uri dir = Ok p -> is_rem
 Proof.
   unfold is_remote, resolve_uri. destruct (strip_prefix (bs "file:") uri); [reflexivity|].
   destruct (contains (bs "://") uri); [discriminate | reflexivity].
+Qed.
+
+(* ================================================================== *)
+(* Part 2: components and ordering *)
+Lemma split_slash_nonempty s : split_slash s <> [].
+Proof. destruct s as [|c s]; cbn; [discriminate|]. destruct (c =? slash); [discriminate|]. destruct (split_slash s); discriminate. Qed.
+Lemma split_slash_app a b : split_slash (a ++ slash :: b) = split_slash a ++ split_slash b.
+Proof.
+  induction a as [|c a IH]; cbn [app split_slash].
+  - now rewrite Z.eqb_refl.
+  - destruct (c =? slash); [now rewrite IH|]. rewrite IH.
+    destruct (split_slash a) eqn:E; [now apply split_slash_nonempty in E|]. reflexivity.
+Qed.
+Lemma split_slash_noslash n : no_byte slash n = true -> split_slash n = [n].
+Proof.
+  induction n as [|c n IH]; intros H; [reflexivity|]. cbn [no_byte forallb] in H. apply andb_true_iff in H as [Hc Hn].
+  cbn [split_slash]. apply negb_true_iff in Hc. rewrite Hc, (IH Hn). reflexivity.
+Qed.
+Lemma components_app a b : components (a ++ slash :: b) = components a ++ components b.
+Proof. unfold components. now rewrite split_slash_app, filter_app. Qed.
+Lemma good_name_inv n : good_name n = true ->
+  no_byte slash n = true /\ no_byte 58 n = true /\ n <> [] /\ n <> [46].
+Proof.
+  unfold good_name. intros H. repeat (apply andb_true_iff in H as [H ?]).
+  repeat split; try assumption; intros ->; discriminate.
+Qed.
+Lemma components_name n : good_name n = true -> components n = [n].
+Proof.
+  intros H. destruct (good_name_inv _ H) as (H1 & _ & H3 & H4).
+  unfold components. rewrite split_slash_noslash by assumption. cbn [filter]. unfold comp_keep.
+  now rewrite (bytes_eqb_false _ _ H3), (bytes_eqb_false _ _ H4).
+Qed.
+
+(* dir/<d1>/<name> *)
+Definition in_dir (dir d1 n : bytes) : bytes := absp dir (d1 ++ slash :: n).
+Lemma components_in_dir dir d1 n : good_name d1 = true -> good_name n = true ->
+  components (in_dir dir d1 n) = components dir ++ [d1; n].
+Proof.
+  intros H1 H2. unfold in_dir, absp. rewrite !components_app, (components_name _ H1), (components_name _ H2). reflexivity.
+Qed.
+Lemma bytes_cmp_refl a : bytes_cmp a a = Eq. Proof. now apply bytes_cmp_eq. Qed.
+Lemma comps_cmp_prefix p a b : comps_cmp (p ++ a) (p ++ b) = comps_cmp a b.
+Proof. induction p as [|x p IH]; cbn [app comps_cmp]; [reflexivity|]. now rewrite bytes_cmp_refl. Qed.
+Lemma path_cmp_in_dir dir d1 n1 n2 : good_name d1 = true -> good_name n1 = true -> good_name n2 = true ->
+  path_cmp (in_dir dir d1 n1) (in_dir dir d1 n2) = bytes_cmp n1 n2.
+Proof.
+  intros. unfold path_cmp. rewrite !components_in_dir by assumption.
+  change [d1; n1] with ([d1] ++ [n1]). change [d1; n2] with ([d1] ++ [n2]).
+  rewrite !app_assoc, comps_cmp_prefix. cbn. destruct (bytes_cmp n1 n2); reflexivity.
+Qed.
+Lemma path_eqb_in_dir dir d1 n1 n2 : good_name d1 = true -> good_name n1 = true -> good_name n2 = true ->
+  path_eqb (in_dir dir d1 n1) (in_dir dir d1 n2) = bytes_eqb n1 n2.
+Proof.
+  intros. unfold path_eqb. rewrite path_cmp_in_dir by assumption.
+  destruct (bytes_cmp n1 n2) eqn:E.
+  - apply bytes_cmp_eq in E. subst. now rewrite bytes_eqb_refl.
+  - symmetry. apply bytes_eqb_false. intros ->. rewrite bytes_cmp_refl in E. discriminate.
+  - symmetry. apply bytes_eqb_false. intros ->. rewrite bytes_cmp_refl in E. discriminate.
+Qed.
+Lemma path_le_in_dir dir d1 n1 n2 : good_name d1 = true -> good_name n1 = true -> good_name n2 = true ->
+  path_le (in_dir dir d1 n1) (in_dir dir d1 n2) = bytes_le n1 n2.
+Proof. intros. unfold path_le, bytes_le. now rewrite path_cmp_in_dir. Qed.
+
+(* path equality is equality of component lists, hence an equivalence *)
+Lemma comps_cmp_eq a b : comps_cmp a b = Eq <-> a = b.
+Proof.
+  revert b; induction a as [|x a IH]; intros [|y b]; cbn; split; intros H; try congruence; auto.
+  - destruct (bytes_cmp x y) eqn:E; cbn in H; try discriminate. apply bytes_cmp_eq in E. apply IH in H. congruence.
+  - inversion H; subst. rewrite bytes_cmp_refl. cbn. now apply IH.
+Qed.
+Lemma path_eqb_spec a b : path_eqb a b = true <-> components a = components b.
+Proof.
+  unfold path_eqb, path_cmp. destruct (comps_cmp (components a) (components b)) eqn:E.
+  - apply comps_cmp_eq in E. tauto.
+  - split; [discriminate|]. intros H. rewrite H in E. rewrite (proj2 (comps_cmp_eq _ _) eq_refl) in E. discriminate.
+  - split; [discriminate|]. intros H. rewrite H in E. rewrite (proj2 (comps_cmp_eq _ _) eq_refl) in E. discriminate.
+Qed.
+Lemma path_eqb_refl a : path_eqb a a = true. Proof. now apply path_eqb_spec. Qed.
+Lemma path_eqb_sym a b : path_eqb a b = path_eqb b a.
+Proof.
+  destruct (path_eqb a b) eqn:E1, (path_eqb b a) eqn:E2; try reflexivity.
+  - apply path_eqb_spec in E1. symmetry in E1. apply path_eqb_spec in E1. congruence.
+  - apply path_eqb_spec in E2. symmetry in E2. apply path_eqb_spec in E2. congruence.
+Qed.
+Lemma path_eqb_trans a b c : path_eqb a b = true -> path_eqb b c = true -> path_eqb a c = true.
+Proof. rewrite !path_eqb_spec. congruence. Qed.
+
+(* the writer's file names *)
+Definition list_file (k : nat) : bytes := bs "snap-" ++ decb k ++ bs ".avro".
+Definition man_file (k : nat) : bytes := bs "m" ++ decb k ++ bs ".avro".
+Definition d_meta : bytes := bs "metadata".
+Definition d_data : bytes := bs "data".
+Lemma list_rel_eq k : list_rel k = d_meta ++ slash :: list_file k. Proof. reflexivity. Qed.
+Lemma man_rel_eq k : man_rel k = d_meta ++ slash :: man_file k. Proof. reflexivity. Qed.
+Lemma data_rel_eq n : data_rel n = d_data ++ slash :: n. Proof. reflexivity. Qed.
+Lemma good_d_meta : good_name d_meta = true. Proof. reflexivity. Qed.
+Lemma good_d_data : good_name d_data = true. Proof. reflexivity. Qed.
+Lemma good_list_file k : good_name (list_file k) = true.
+Proof.
+  unfold good_name, list_file. rewrite !no_byte_app.
+  rewrite !(digits_no_byte _ _ (decb_digits k)) by (unfold slash; lia). reflexivity.
+Qed.
+Lemma good_man_file k : good_name (man_file k) = true.
+Proof.
+  unfold good_name, man_file. rewrite !no_byte_app.
+  rewrite !(digits_no_byte _ _ (decb_digits k)) by (unfold slash; lia). reflexivity.
+Qed.
+Lemma list_file_inj a b : list_file a = list_file b -> a = b.
+Proof. unfold list_file. intros H. apply app_inv_head in H. apply app_inv_tail in H. now apply decb_inj. Qed.
+Lemma man_file_inj a b : man_file a = man_file b -> a = b.
+Proof. unfold man_file. intros H. apply app_inv_head in H. apply app_inv_tail in H. now apply decb_inj. Qed.
+Lemma md_name_inj a b : md_name a = md_name b -> a = b.
+Proof. unfold md_name. intros H. apply app_inv_head in H. apply app_inv_tail in H. now apply decb_inj. Qed.
+
+Lemma good_rel_in d1 n : good_name d1 = true -> good_name n = true -> good_rel (d1 ++ slash :: n).
+Proof.
+  intros H1 H2. destruct (good_name_inv _ H1) as (A1 & A2 & A3 & _). destruct (good_name_inv _ H2) as (_ & B2 & _).
+  split.
+  - rewrite no_byte_app, A2. cbn [no_byte forallb andb]. exact B2.
+  - destruct d1 as [|c d1]; [congruence|]. cbn [app is_abs]. cbn [no_byte forallb] in A1.
+    apply andb_true_iff in A1 as [A1 _]. now apply negb_true_iff in A1.
+Qed.
+
+(* ================================================================== *)
+(* Part 3: sort + dedup *)
+Section SortTransport.
+  Context {A B : Type} (f : A -> B) (le1 : A -> A -> bool) (le2 : B -> B -> bool).
+  Lemma insert_map x s : (forall b, In b s -> le2 (f x) (f b) = le1 x b) ->
+    insert le2 (f x) (map f s) = map f (insert le1 x s).
+  Proof.
+    induction s as [|h t IH]; intros H; cbn [map insert]; [reflexivity|].
+    rewrite (H h (or_introl eq_refl)). destruct (le1 x h); [reflexivity|].
+    cbn [map]. f_equal. apply IH. intros b Hb. apply H. now right.
+  Qed.
+  Lemma isort_map l : (forall a b, In a l -> In b l -> le2 (f a) (f b) = le1 a b) ->
+    isort le2 (map f l) = map f (isort le1 l).
+  Proof.
+    induction l as [|x l IH]; intros H; [reflexivity|].
+    cbn [map isort fold_right]. fold (isort le2 (map f l)). fold (isort le1 l).
+    rewrite IH by (intros; apply H; now right).
+    apply insert_map. intros b Hb. apply H; [now left|]. right.
+    eapply Permutation_in; [apply isort_perm | exact Hb].
+  Qed.
+End SortTransport.
+Section DedupTransport.
+  Context {A B : Type} (f : A -> B) (e1 : A -> A -> bool) (e2 : B -> B -> bool).
+  Lemma dedup_go_map p l : (forall a b, In a (p :: l) -> In b (p :: l) -> e2 (f a) (f b) = e1 a b) ->
+    dedup_go e2 (f p) (map f l) = map f (dedup_go e1 p l).
+  Proof.
+    revert p; induction l as [|y t IH]; intros p H; [reflexivity|]. cbn [map dedup_go].
+    rewrite (H p y) by (cbn; auto). destruct (e1 p y).
+    - apply IH. intros a b Ha Hb. apply H; cbn in *; tauto.
+    - cbn [map]. f_equal. apply IH. intros a b Ha Hb. apply H; cbn in *; tauto.
+  Qed.
+  Lemma dedup_map l : (forall a b, In a l -> In b l -> e2 (f a) (f b) = e1 a b) ->
+    dedup e2 (map f l) = map f (dedup e1 l).
+  Proof. destruct l as [|x l]; intros H; [reflexivity|]. cbn [map dedup]. f_equal. now apply dedup_go_map. Qed.
+End DedupTransport.
+
+Section DedupIn.
+  Context {A : Type} (eqb : A -> A -> bool).
+  Lemma dedup_go_subset p l x : In x (dedup_go eqb p l) -> In x l.
+  Proof.
+    revert p; induction l as [|y t IH]; intros p H; [contradiction|]. cbn [dedup_go] in H.
+    destruct (eqb p y); [right; eapply IH; eauto|]. destruct H as [->|H]; [now left | right; eapply IH; eauto].
+  Qed.
+  Lemma dedup_subset l x : In x (dedup eqb l) -> In x l.
+  Proof. destruct l as [|y t]; [auto|]. cbn [dedup]. intros [->|H]; [now left | right; eapply dedup_go_subset; eauto]. Qed.
+  (* every dropped element is eqb to a kept one *)
+  Lemma dedup_go_cover p l x : In x l -> eqb p x = true \/ exists z, In z (dedup_go eqb p l) /\ (z = x \/ eqb z x = true).
+  Proof.
+    revert p; induction l as [|y t IH]; intros p H; [contradiction|]. cbn [dedup_go].
+    destruct H as [->|H].
+    - destruct (eqb p x) eqn:E; [now left|]. right. exists x. split; [now left | now left].
+    - destruct (eqb p y) eqn:E.
+      + apply IH, H.
+      + right. destruct (IH y H) as [H1|(z & Hz & Hz')].
+        * exists y. split; [now left | now right].
+        * exists z. split; [now right | exact Hz'].
+  Qed.
+  Lemma dedup_cover l x : In x l -> exists z, In z (dedup eqb l) /\ (z = x \/ eqb z x = true).
+  Proof.
+    destruct l as [|y t]; [contradiction|]. intros [->|H]; cbn [dedup].
+    - exists x. split; [now left | now left].
+    - destruct (dedup_go_cover y t x H) as [H1|(z & Hz & Hz')].
+      + exists y. split; [now left | now right].
+      + exists z. split; [now right | exact Hz'].
+  Qed.
+  Lemma dedup_nil l : dedup eqb l = [] -> l = [].
+  Proof. destruct l; [auto | discriminate]. Qed.
+End DedupIn.
+
+Lemma isort_in {A} (le : A -> A -> bool) l x : In x (isort le l) <-> In x l.
+Proof. split; apply Permutation_in; [apply isort_perm | apply Permutation_sym, isort_perm]. Qed.
+Lemma isort_nil {A} (le : A -> A -> bool) l : isort le l = [] -> l = [].
+Proof. intros H. apply length_zero_iff_nil. rewrite <- (isort_length le), H. reflexivity. Qed.
+
+Lemma usort_in l x : In x (usort l) <-> In x l.
+Proof.
+  unfold usort. split.
+  - intros H. apply dedup_subset in H. now apply isort_in in H.
+  - intros H. apply (isort_in bytes_le) in H. destruct (dedup_cover bytes_eqb _ _ H) as (z & Hz & [->|Hz']); [exact Hz|].
+    apply bytes_eqb_spec in Hz'. now subst.
+Qed.
+Lemma usort_nil l : usort l = [] -> l = [].
+Proof. unfold usort. intros H. apply dedup_nil in H. now apply isort_nil in H. Qed.
+
+(* bytes_cmp is a total order *)
+Lemma bytes_cmp_antisym a b : bytes_cmp b a = CompOpp (bytes_cmp a b).
+Proof.
+  revert b; induction a as [|x a IH]; intros [|y b]; cbn; try reflexivity.
+  rewrite (Z.compare_antisym x y). destruct (x ?= y); cbn; auto.
+Qed.
+Lemma bytes_lt_trans a b c : bytes_cmp a b = Lt -> bytes_cmp b c = Lt -> bytes_cmp a c = Lt.
+Proof.
+  revert b c; induction a as [|x a IH]; intros [|y b] [|z c]; cbn; try congruence.
+  destruct (Z.compare_spec x y), (Z.compare_spec y z); try discriminate; intros H1 H2; subst.
+  - rewrite Z.compare_refl. eapply IH; eauto.
+  - now apply Z.compare_lt_iff in H0 as ->.
+  - now apply Z.compare_lt_iff in H as ->.
+  - assert (x < z) as Hxz by lia. now apply Z.compare_lt_iff in Hxz as ->.
+Qed.
+Definition blt (a b : bytes) : Prop := bytes_cmp a b = Lt.
+Lemma bytes_le_cases a b : bytes_le a b = true <-> (a = b \/ blt a b).
+Proof.
+  unfold bytes_le, blt, cmp_le. destruct (bytes_cmp a b) eqn:E.
+  - apply bytes_cmp_eq in E. tauto.
+  - tauto.
+  - split; [discriminate|]. intros [->|H]; [rewrite bytes_cmp_refl in E|]; discriminate.
+Qed.
+Lemma bytes_le_total a b : bytes_le a b = false -> blt b a.
+Proof.
+  unfold bytes_le, blt, cmp_le. rewrite (bytes_cmp_antisym a b). destruct (bytes_cmp a b); cbn; congruence.
+Qed.
+Lemma insert_sorted x l : StronglySorted (fun a b => bytes_le a b = true) l ->
+  StronglySorted (fun a b => bytes_le a b = true) (insert bytes_le x l).
+Proof.
+  induction 1 as [|h t Hs IH Hall]; cbn [insert].
+  - constructor; constructor.
+  - destruct (bytes_le x h) eqn:E.
+    + constructor; [constructor; assumption|]. constructor; [exact E|].
+      rewrite Forall_forall in *. intros y Hy. specialize (Hall y Hy).
+      apply bytes_le_cases in E. apply bytes_le_cases in Hall. apply bytes_le_cases.
+      destruct E as [->|E], Hall as [->|Hall]; auto. right. eapply bytes_lt_trans; eauto.
+    + constructor; [exact IH|]. apply bytes_le_total in E.
+      rewrite Forall_forall in *. intros y Hy.
+      apply (Permutation_in _ (insert_perm bytes_le x t)) in Hy. destruct Hy as [<-|Hy].
+      * apply bytes_le_cases. now right.
+      * now apply Hall.
+Qed.
+Lemma isort_sorted l : StronglySorted (fun a b => bytes_le a b = true) (isort bytes_le l).
+Proof. induction l as [|x l IH]; [constructor|]. cbn [isort fold_right]. apply insert_sorted, IH. Qed.
+Lemma dedup_go_strict p l : StronglySorted (fun a b => bytes_le a b = true) (p :: l) ->
+  StronglySorted blt (dedup_go bytes_eqb p l) /\ Forall (blt p) (dedup_go bytes_eqb p l).
+Proof.
+  revert p; induction l as [|y t IH]; intros p H; cbn [dedup_go]; [split; constructor|].
+  inversion H as [|? ? Hs Hall]; subst. inversion Hall as [|? ? Hpy Hpt]; subst.
+  destruct (bytes_eqb p y) eqn:E.
+  - apply bytes_eqb_spec in E. subst y. apply IH. exact Hs.
+  - assert (Hlt : blt p y).
+    { apply bytes_le_cases in Hpy as [->|Hpy]; [rewrite bytes_eqb_refl in E; discriminate | exact Hpy]. }
+    destruct (IH y Hs) as [H1 H2]. split.
+    + constructor; assumption.
+    + constructor; [exact Hlt|]. rewrite Forall_forall in *. intros z Hz. eapply bytes_lt_trans; [exact Hlt | now apply H2].
+Qed.
+Lemma usort_strict l : StronglySorted blt (usort l).
+Proof.
+  unfold usort. pose proof (isort_sorted l) as H. destruct (isort bytes_le l) as [|x t]; cbn [dedup]; [constructor|].
+  destruct (dedup_go_strict x t H). now constructor.
+Qed.
+Lemma usort_nodup l : NoDup (usort l).
+Proof.
+  pose proof (usort_strict l) as H. induction H as [|x t Hs IH Hall]; constructor; [|exact IH].
+  intros Hin. rewrite Forall_forall in Hall. specialize (Hall x Hin). unfold blt in Hall. rewrite bytes_cmp_refl in Hall. discriminate.
+Qed.
+
+(* ================================================================== *)
+(* Part 4: what an Ok read of ANY directory implies (hence the refusals) *)
+Definition entry_ok (dir : bytes) (fs : list bytes) (e : entry) : Prop :=
+  live_entry e = true ->
+  content_or0 e = 0 /\ eq_ignore_case (e_format e) (bs "parquet") = true /\ is_remote (e_path e) = false /\
+  exists p, resolve_uri (e_path e) dir = Ok p /\ In p fs.
+
+Lemma entries_files_ok dir es l : entries_files dir es = Ok l ->
+  (forall e, In e es -> entry_ok dir l e) /\
+  (forall p, In p l -> exists e, In e es /\ live_entry e = true /\ resolve_uri (e_path e) dir = Ok p).
+Proof.
+  revert l; induction es as [|e r IH]; intros l H; cbn [entries_files] in H.
+  - inversion H; subst. split; intros ? [].
+  - destruct (e_status e =? 2) eqn:Est.
+    + destruct (IH _ H) as [A B]. split.
+      * intros e' [<-|Hin]; [|now apply A]. unfold entry_ok, live_entry. rewrite Est. discriminate.
+      * intros p Hp. destruct (B p Hp) as (e' & ? & ? & ?). exists e'. cbn; auto.
+    + destruct (content_or0 e =? 0) eqn:Ec; cbn [negb] in H; [|discriminate].
+      destruct (eq_ignore_case (e_format e) (bs "parquet")) eqn:Ef; cbn [negb] in H; [|discriminate].
+      destruct (resolve_uri (e_path e) dir) as [p|] eqn:Er; [|discriminate].
+      destruct (entries_files dir r) as [l'|] eqn:El; [|discriminate]. inversion H; subst. clear H.
+      destruct (IH _ eq_refl) as [A B]. split.
+      * intros e' [<-|Hin].
+        -- intros _. split; [now apply Z.eqb_eq|]. split; [exact Ef|].
+           split; [eapply resolve_uri_ok_not_remote; eauto|]. exists p. split; [exact Er | now left].
+        -- intros Hl. destruct (A e' Hin Hl) as (? & ? & ? & p' & ? & ?). repeat split; auto. exists p'. split; [auto | now right].
+      * intros p' [<-|Hp].
+        -- exists e. split; [now left|]. split; [unfold live_entry; now rewrite Est | exact Er].
+        -- destruct (B p' Hp) as (e' & ? & ? & ?). exists e'. cbn; auto.
+Qed.
+
+Definition manifest_ok (t : table) (fs : list bytes) (u : bytes) : Prop :=
+  exists mp es, resolve_uri u (t_dir t) = Ok mp /\ fs_lookup mp (t_mans t) = Some es /\
+                forall e, In e es -> entry_ok (t_dir t) fs e.
+Definition file_from (t : table) (ms : list bytes) (p : bytes) : Prop :=
+  exists u mp es e, In u ms /\ resolve_uri u (t_dir t) = Ok mp /\ fs_lookup mp (t_mans t) = Some es /\
+                    In e es /\ live_entry e = true /\ resolve_uri (e_path e) (t_dir t) = Ok p.
+
+Lemma entry_ok_mono dir l l' e : (forall p, In p l -> In p l') -> entry_ok dir l e -> entry_ok dir l' e.
+Proof. intros Hs H Hl. destruct (H Hl) as (? & ? & ? & p & ? & ?). repeat split; auto. exists p; auto. Qed.
+
+Lemma manifests_files_ok t ms l : manifests_files t ms = Ok l ->
+  (forall u, In u ms -> manifest_ok t l u) /\ (forall p, In p l -> file_from t ms p).
+Proof.
+  revert l; induction ms as [|u r IH]; intros l H; cbn [manifests_files] in H.
+  - inversion H; subst. split; intros ? [].
+  - destruct (resolve_uri u (t_dir t)) as [mp|] eqn:Er; [|discriminate].
+    destruct (fs_lookup mp (t_mans t)) as [es|] eqn:El; [|discriminate].
+    destruct (entries_files (t_dir t) es) as [l1|] eqn:E1; [|discriminate].
+    destruct (manifests_files t r) as [l2|] eqn:E2; [|discriminate]. inversion H; subst. clear H.
+    destruct (entries_files_ok _ _ _ E1) as [A1 B1]. destruct (IH _ eq_refl) as [A2 B2]. split.
+    + intros u' [<-|Hin].
+      * exists mp, es. split; [exact Er|]. split; [exact El|]. intros e He. eapply entry_ok_mono; [|apply A1, He]. intros; apply in_or_app; auto.
+      * destruct (A2 u' Hin) as (mp' & es' & ? & ? & Hall). exists mp', es'. split; [assumption|]. split; [assumption|].
+        intros e He. eapply entry_ok_mono; [|apply Hall, He]. intros; apply in_or_app; auto.
+    + intros p Hp. apply in_app_or in Hp as [Hp|Hp].
+      * destruct (B1 p Hp) as (e & ? & ? & ?). exists u, mp, es, e. cbn; auto 10.
+      * destruct (B2 p Hp) as (u' & mp' & es' & e & ? & ? & ? & ? & ? & ?). exists u', mp', es', e. cbn; auto 10.
+Qed.
+
+(* sort + dedup keep every path up to path equality, and add nothing *)
+Lemma canon_files_subset l p : In p (canon_files l) -> In p l.
+Proof. unfold canon_files. intros H. apply dedup_subset in H. now apply isort_in in H. Qed.
+Lemma canon_files_cover l p : In p l -> mem_path p (canon_files l) = true.
+Proof.
+  intros H. apply (isort_in path_le) in H. destruct (dedup_cover path_eqb _ _ H) as (z & Hz & Hz').
+  unfold mem_path. apply existsb_exists. exists z. split; [exact Hz|].
+  destruct Hz' as [->|Hz']; [apply path_eqb_refl | now rewrite path_eqb_sym].
+Qed.
+
+Definition entry_ok' (dir : bytes) (fs : list bytes) (e : entry) : Prop :=
+  live_entry e = true ->
+  content_or0 e = 0 /\ eq_ignore_case (e_format e) (bs "parquet") = true /\ is_remote (e_path e) = false /\
+  exists p, resolve_uri (e_path e) dir = Ok p /\ mem_path p fs = true.
+
+(* data_files_of returns exactly the live data files of the manifests the list names *)
+Theorem data_files_exact t ml fs : data_files_of t ml = Ok fs ->
+  exists ms, fs_lookup ml (t_lists t) = Some ms /\
+    (forall u, In u ms -> exists mp es, resolve_uri u (t_dir t) = Ok mp /\ fs_lookup mp (t_mans t) = Some es /\
+                                         forall e, In e es -> entry_ok' (t_dir t) fs e) /\
+    (forall p, In p fs -> file_from t ms p).
+Proof.
+  unfold data_files_of. destruct (fs_lookup ml (t_lists t)) as [ms|]; [|discriminate].
+  destruct (manifests_files t ms) as [l|] eqn:E; [|discriminate]. intros H; inversion H; subst; clear H.
+  destruct (manifests_files_ok _ _ _ E) as [A B]. exists ms. split; [reflexivity|]. split.
+  - intros u Hu. destruct (A u Hu) as (mp & es & ? & ? & Hall). exists mp, es. split; [assumption|]. split; [assumption|].
+    intros e He Hl. destruct (Hall e He Hl) as (? & ? & ? & p & ? & ?). repeat split; auto.
+    exists p. split; [auto | now apply canon_files_cover].
+  - intros p Hp. apply B. now apply canon_files_subset.
+Qed.
+
+Lemma find_snap_in id l s : find_snap id l = Some s -> In s l /\ s_id s = id.
+Proof. unfold find_snap. intros H. apply find_some in H as [? H]. now apply Z.eqb_eq in H. Qed.
+
+Theorem open_inv t q o : open_table t q = Ok o ->
+  exists n' md s ml,
+    latest_metadata t = Ok (o_md o) /\ name_lookup (o_md o) (t_meta t) = Some (n', Some md) /\
+    (md_fv md = 1 \/ md_fv md = 2) /\ In s (md_snaps md) /\ s_id s = o_sid o /\
+    match q with Some id => o_sid o = id | None => md_cur md = Some (o_sid o) end /\
+    resolve_uri (s_ml s) (t_dir t) = Ok ml /\ data_files_of t ml = Ok (o_files o) /\
+    o_files o <> [] /\ forallb (file_exists t) (o_files o) = true.
+Proof.
+  unfold open_table. destruct (latest_metadata t) as [name|]; [|discriminate].
+  destruct (name_lookup name (t_meta t)) as [[n' [md|]]|] eqn:En; try discriminate.
+  destruct ((md_fv md =? 1) || (md_fv md =? 2)) eqn:Efv; cbn [negb]; [|discriminate].
+  set (snaps := isort (fun a b => s_ts a <=? s_ts b) (md_snaps md)).
+  set (chosen := match q with Some id => find_snap id snaps | None => match md_cur md with Some c => find_snap c snaps | None => None end end).
+  destruct chosen as [s|] eqn:Ech; [|discriminate].
+  destruct (resolve_uri (s_ml s) (t_dir t)) as [ml|] eqn:Er; [|discriminate].
+  destruct (data_files_of t ml) as [files|] eqn:Ed; [|discriminate].
+  destruct files as [|f0 fr] eqn:Ef; [discriminate|].
+  destruct (forallb (file_exists t) (f0 :: fr)) eqn:Eex; [|discriminate].
+  intros H; inversion H; subst o; clear H. cbn [o_md o_sid o_files].
+  exists n', md, s, ml.
+  assert (Hs : In s (md_snaps md) /\ match q with Some id => s_id s = id | None => md_cur md = Some (s_id s) end).
+  { subst chosen. destruct q as [id|].
+    - apply find_snap_in in Ech as [Hin ?]. split; [|assumption]. now apply (isort_in _ (md_snaps md)) in Hin.
+    - destruct (md_cur md) as [c|]; [|discriminate]. apply find_snap_in in Ech as [Hin ?]. subst c.
+      split; [|reflexivity]. now apply (isort_in _ (md_snaps md)) in Hin. }
+  destruct Hs as [Hs1 Hs2]. repeat split; auto.
+  - apply orb_true_iff in Efv as [E|E]; apply Z.eqb_eq in E; auto.
+  - discriminate.
+Qed.
+
+(* refusals, in direct form *)
+Theorem refuse_unknown_snapshot t id name n' md :
+  latest_metadata t = Ok name -> name_lookup name (t_meta t) = Some (n', Some md) ->
+  (forall s, In s (md_snaps md) -> s_id s <> id) -> open_table t (Some id) = Err EStorage.
+Proof.
+  intros H1 H2 H3. unfold open_table. rewrite H1, H2.
+  destruct (negb ((md_fv md =? 1) || (md_fv md =? 2))); [reflexivity|].
+  destruct (find_snap id (isort (fun a b => s_ts a <=? s_ts b) (md_snaps md))) as [s|] eqn:E; [|reflexivity].
+  apply find_snap_in in E as [Hin ?]. apply (isort_in _ (md_snaps md)) in Hin. exfalso. eapply H3; eauto.
+Qed.
+Theorem refuse_no_current t name n' md :
+  latest_metadata t = Ok name -> name_lookup name (t_meta t) = Some (n', Some md) ->
+  md_cur md = None -> open_table t None = Err EStorage.
+Proof.
+  intros H1 H2 H3. unfold open_table. rewrite H1, H2, H3. destruct (negb _); reflexivity.
+Qed.
+Theorem refuse_bad_entry t ml ms u mp es e :
+  fs_lookup ml (t_lists t) = Some ms -> In u ms -> resolve_uri u (t_dir t) = Ok mp ->
+  fs_lookup mp (t_mans t) = Some es -> In e es -> live_entry e = true ->
+  (content_or0 e <> 0 \/ eq_ignore_case (e_format e) (bs "parquet") = false \/ is_remote (e_path e) = true) ->
+  exists x, data_files_of t ml = Err x.
+Proof.
+  intros Hl Hu Hr Hm He Hlive Hbad. destruct (data_files_of t ml) as [fs|x] eqn:E; [|now exists x].
+  exfalso. destruct (data_files_exact _ _ _ E) as (ms' & Hl' & A & _). rewrite Hl in Hl'. inversion Hl'; subst ms'.
+  destruct (A u Hu) as (mp' & es' & Hr' & Hm' & Hall). rewrite Hr in Hr'. inversion Hr'; subst mp'.
+  rewrite Hm in Hm'. inversion Hm'; subst es'. destruct (Hall e He Hlive) as (H1 & H2 & H3 & _).
+  destruct Hbad as [Hb|[Hb|Hb]]; congruence.
+Qed.
+Theorem refuse_remote_manifest t ml ms u :
+  fs_lookup ml (t_lists t) = Some ms -> In u ms -> is_remote u = true -> exists x, data_files_of t ml = Err x.
+Proof.
+  intros Hl Hu Hr. destruct (data_files_of t ml) as [fs|x] eqn:E; [|now exists x].
+  exfalso. destruct (data_files_exact _ _ _ E) as (ms' & Hl' & A & _). rewrite Hl in Hl'. inversion Hl'; subst ms'.
+  destruct (A u Hu) as (mp' & es' & Hr' & _). rewrite (resolve_uri_remote _ _ Hr) in Hr'. discriminate.
+Qed.
+Theorem open_nonempty t q o : open_table t q = Ok o -> o_files o <> [].
+Proof. intros H. destruct (open_inv _ _ _ H) as (? & ? & ? & ? & H'). tauto. Qed.
+
+
+(* ================================================================== *)
+(* Part 5: the reader on a rendered logical state *)
+Definition absd (dir n : bytes) : bytes := absp dir (data_rel n).
+
+Record WF (s : lstate) : Prop := {
+  wf_metas : exists m rest, st_metas s = m :: rest;
+  wf_listed_nodup : NoDup (map ls_id (l_snaps (cur_meta s)));
+  wf_listed_in : forall x, In x (l_snaps (cur_meta s)) -> In x (st_snaps s);
+  wf_snaps_nodup : NoDup (map ls_id (st_snaps s));
+  wf_mans_nodup : NoDup (map lm_id (st_mans s));
+  wf_mans_exist : forall x, In x (st_snaps s) -> forall i, In i (ls_mans x) -> exists m, In m (st_mans s) /\ lm_id m = i;
+  wf_names : forall m, In m (st_mans s) -> forall e, In e (lm_entries m) -> good_name (snd e) = true /\ In (snd e) (st_files s)
+}.
+(* how the current metadata file is found: by the hint, or because it is strictly the newest *)
+Definition meta_disc (hint : bool) (s : lstate) : Prop :=
+  hint = true \/ forall m, In m (tl (st_metas s)) -> l_lu m < l_lu (cur_meta s).
+
+Definition l_open (s : lstate) (q : option Z) : option (nat * list bytes) :=
+  let m := cur_meta s in
+  match (match q with Some i => Some i | None => option_map Z.of_nat (l_cur m) end) with
+  | None => None
+  | Some id => match find (fun x => Z.of_nat (ls_id x) =? id) (l_snaps m) with
+               | None => None
+               | Some x => Some (ls_id x, live_names (st_mans s) (ls_mans x))
+               end
+  end.
+
+Lemma md_name_suffix n : ends_with md_suffix (md_name n) = true.
+Proof. unfold md_name. rewrite app_assoc. apply ends_with_app. Qed.
+
+Lemma scan_meta_older dir rest T nm : (forall m, In m rest -> l_lu m < T) ->
+  scan_meta (map (render_meta dir) rest) (Some (T, nm)) = Ok (Some (T, nm)).
+Proof.
+  induction rest as [|m rest IH]; intros H; [reflexivity|]. cbn [map render_meta scan_meta].
+  rewrite md_name_suffix. cbn [negb md_lu]. unfold key_gt. cbn [fst snd].
+  assert (l_lu m < T) as Hlt by (apply H; now left). apply Z.compare_lt_iff in Hlt. rewrite Hlt.
+  apply IH. intros; apply H; now right.
+Qed.
+
+Lemma latest_metadata_render dir hint s : WF s -> meta_disc hint s ->
+  latest_metadata (render dir hint s) = Ok (md_name (lv (cur_meta s))).
+Proof.
+  intros W D. destruct (wf_metas _ W) as (m & rest & Hm). unfold latest_metadata, render, cur_meta. rewrite Hm.
+  cbn [t_hint t_meta hd map]. destruct hint.
+  - rewrite hint_candidate_decb. unfold name_lookup. cbn [find render_meta fst]. now rewrite bytes_eqb_refl.
+  - destruct D as [D|D]; [discriminate|]. unfold cur_meta in D. rewrite Hm in D. cbn [tl hd] in D.
+    cbn [scan_meta render_meta]. rewrite md_name_suffix. cbn [negb md_lu]. now rewrite scan_meta_older.
+Qed.
+
+Lemma find_map {A B} (f : A -> B) (P : B -> bool) l : find P (map f l) = option_map f (find (fun x => P (f x)) l).
+Proof. induction l as [|x l IH]; [reflexivity|]. cbn. destruct (P (f x)); [reflexivity | exact IH]. Qed.
+Lemma find_unique_perm {A} (P : A -> bool) l l' :
+  (forall x y, In x l -> In y l -> P x = true -> P y = true -> x = y) -> Permutation l l' -> find P l = find P l'.
+Proof.
+  intros U Hp. destruct (find P l) as [x|] eqn:E.
+  - apply find_some in E as [Hin HP]. destruct (find P l') as [y|] eqn:E'.
+    + apply find_some in E' as [Hin' HP']. f_equal. apply U; auto. eapply Permutation_in; [apply Permutation_sym, Hp | exact Hin'].
+    + exfalso. eapply find_none in E'; [|eapply Permutation_in; [exact Hp | exact Hin]]. congruence.
+  - destruct (find P l') as [y|] eqn:E'; [|reflexivity]. apply find_some in E' as [Hin' HP'].
+    eapply find_none in E; [|eapply Permutation_in; [apply Permutation_sym, Hp | exact Hin']]. congruence.
+Qed.
+Lemma nodup_map_inj {A B} (f : A -> B) l x y : NoDup (map f l) -> In x l -> In y l -> f x = f y -> x = y.
+Proof.
+  induction l as [|a l IH]; intros Hn Hx Hy He; [contradiction|]. cbn in Hn. inversion Hn as [|? ? Hnotin Hn']; subst.
+  destruct Hx as [->|Hx], Hy as [->|Hy]; auto.
+  - exfalso. apply Hnotin. rewrite He. now apply in_map.
+  - exfalso. apply Hnotin. rewrite <- He. now apply in_map.
+Qed.
+
+Lemma chosen_render dir L id : NoDup (map ls_id L) ->
+  find_snap id (isort (fun a b => s_ts a <=? s_ts b) (map (render_snap dir) L))
+  = option_map (render_snap dir) (find (fun x => Z.of_nat (ls_id x) =? id) L).
+Proof.
+  intros Hn. unfold find_snap.
+  rewrite (find_unique_perm _ _ (map (render_snap dir) L)).
+  - now rewrite find_map.
+  - intros x y Hx Hy Px Py. apply (Permutation_in _ (isort_perm _ _)) in Hx. apply (Permutation_in _ (isort_perm _ _)) in Hy.
+    apply in_map_iff in Hx as (x0 & <- & Hx0). apply in_map_iff in Hy as (y0 & <- & Hy0).
+    cbn [render_snap s_id] in Px, Py. apply Z.eqb_eq in Px, Py. f_equal.
+    apply (nodup_map_inj ls_id L); auto. apply Nat2Z.inj. congruence.
+  - apply isort_perm.
+Qed.
+
+(* lookup of dir/<d1>/<file k> in a rendered store of items with distinct ids *)
+Lemma lookup_store {X V} (items : list X) (id : X -> nat) (file : nat -> bytes) (val : X -> V) dir d1 x :
+  (forall k, good_name (file k) = true) -> (forall a b, file a = file b -> a = b) -> good_name d1 = true ->
+  NoDup (map id items) -> In x items ->
+  fs_lookup (in_dir dir d1 (file (id x))) (map (fun y => (in_dir dir d1 (file (id y)), val y)) items) = Some (val x).
+Proof.
+  intros Hg Hinj Hd. unfold fs_lookup. induction items as [|y items IH]; intros Hn Hin; [contradiction|].
+  cbn [map find fst]. rewrite path_eqb_in_dir by auto. cbn in Hn. inversion Hn as [|? ? Hnotin Hn']; subst.
+  destruct Hin as [->|Hin].
+  - now rewrite bytes_eqb_refl.
+  - rewrite bytes_eqb_false; [now apply IH|]. intros He. apply Hinj in He. apply Hnotin. rewrite <- He. now apply in_map.
+Qed.
+
+Lemma find_lman_in mans m : NoDup (map lm_id mans) -> In m mans -> find_lman (lm_id m) mans = Some m.
+Proof.
+  intros Hn Hin. unfold find_lman. destruct (find (fun x => Nat.eqb (lm_id x) (lm_id m)) mans) as [m'|] eqn:E.
+  - apply find_some in E as [Hin' He]. apply Nat.eqb_eq in He. f_equal. eapply nodup_map_inj; eauto.
+  - eapply find_none in E; [|exact Hin]. rewrite Nat.eqb_refl in E. discriminate.
+Qed.
+Lemma find_lman_some i mans m : find_lman i mans = Some m -> In m mans /\ lm_id m = i.
+Proof. unfold find_lman. intros H. apply find_some in H as [? H]. now apply Nat.eqb_eq in H. Qed.
+
+Lemma parquet_ok : eq_ignore_case (bs "PARQUET") (bs "parquet") = true. Proof. reflexivity. Qed.
+
+Lemma live_of_entries_cons st n es :
+  live_of_entries ((st, n) :: es) = if st =? 2 then live_of_entries es else n :: live_of_entries es.
+Proof. unfold live_of_entries. cbn [filter fst]. destruct (st =? 2); reflexivity. Qed.
+
+Lemma entries_files_render f dir es : good_dir dir = true ->
+  (forall e, In e es -> good_name (snd e) = true) ->
+  entries_files dir (map (render_entry f dir) es) = Ok (map (absd dir) (live_of_entries es)).
+Proof.
+  intros Hd. induction es as [|[st n] es IH]; intros Hg; [reflexivity|].
+  rewrite live_of_entries_cons. cbn [map entries_files]. unfold render_entry at 1 2 3 4.
+  cbn [e_status e_content e_format e_path fst snd content_or0].
+  destruct (st =? 2) eqn:Est.
+  - apply IH. intros; apply Hg; now right.
+  - rewrite parquet_ok. cbn [Z.eqb negb]. change (e_path (render_entry f dir (st, n))) with (uri_of f dir (data_rel n)).
+    rewrite data_rel_eq, resolve_uri_forms; [|exact Hd|apply good_rel_in; [apply good_d_data | apply (Hg (st, n)); now left]].
+    rewrite IH by (intros; apply Hg; now right). reflexivity.
+Qed.
+
+Lemma manifests_files_render dir hint s f ids : good_dir dir = true -> WF s ->
+  (forall i, In i ids -> exists m, In m (st_mans s) /\ lm_id m = i) ->
+  manifests_files (render dir hint s) (map (fun i => uri_of f dir (man_rel i)) ids)
+  = Ok (map (absd dir) (live_names (st_mans s) ids)).
+Proof.
+  intros Hd W. induction ids as [|i ids IH]; intros Hex; [reflexivity|].
+  cbn [map manifests_files]. cbn [render t_dir t_mans].
+  destruct (Hex i (or_introl eq_refl)) as (m & Hm & Hi).
+  rewrite man_rel_eq, resolve_uri_forms; [|exact Hd|apply good_rel_in; [apply good_d_meta | apply good_man_file]].
+  change (absp dir (d_meta ++ slash :: man_file i)) with (in_dir dir d_meta (man_file i)).
+  assert (Hl : fs_lookup (in_dir dir d_meta (man_file i)) (map (render_man dir) (st_mans s))
+               = Some (map (render_entry (lm_form m) dir) (lm_entries m))).
+  { subst i. unfold render_man.
+    apply (lookup_store (st_mans s) lm_id man_file (fun y => map (render_entry (lm_form y) dir) (lm_entries y)));
+      auto using good_man_file, man_file_inj, good_d_meta, (wf_mans_nodup _ W). }
+  rewrite Hl, entries_files_render; [|exact Hd|intros e He; apply (wf_names _ W m Hm e He)].
+  cbn [render t_dir t_mans] in IH. rewrite IH by (intros; apply Hex; now right).
+  unfold live_names. cbn [map concat]. rewrite map_app. do 2 f_equal.
+  unfold man_live. subst i. now rewrite (find_lman_in _ _ (wf_mans_nodup _ W) Hm).
+Qed.
+
+Lemma canon_files_render dir L : (forall n, In n L -> good_name n = true) ->
+  canon_files (map (absd dir) L) = map (absd dir) (usort L).
+Proof.
+  intros Hg. unfold canon_files, usort.
+  change (absd dir) with (fun n => in_dir dir d_data n).
+  rewrite (isort_map _ bytes_le path_le).
+  - apply dedup_map. intros a b Ha Hb. apply isort_in in Ha, Hb. apply path_eqb_in_dir; auto using good_d_data.
+  - intros a b Ha Hb. apply path_le_in_dir; auto using good_d_data.
+Qed.
+
+Lemma live_names_in mans ids n : In n (live_names mans ids) ->
+  exists i m e, In i ids /\ In m mans /\ lm_id m = i /\ In e (lm_entries m) /\ snd e = n.
+Proof.
+  unfold live_names. intros H. apply in_concat in H as (l & Hl & Hn). apply in_map_iff in Hl as (i & <- & Hi).
+  unfold man_live in Hn. destruct (find_lman i mans) as [m|] eqn:E; [|contradiction].
+  apply find_lman_some in E as [Hm Hid]. unfold live_of_entries in Hn. apply in_map_iff in Hn as (e & He & Hf).
+  apply filter_In in Hf as [Hf _]. exists i, m, e. auto.
+Qed.
+
+Lemma file_exists_render dir hint s n : In n (st_files s) -> file_exists (render dir hint s) (absd dir n) = true.
+Proof.
+  intros Hin. unfold file_exists, fs_lookup. cbn [render t_data].
+  destruct (find (fun kv => path_eqb (absd dir n) (fst kv)) (map (fun n0 => (absp dir (data_rel n0), name_rows n0)) (st_files s))) eqn:E; [reflexivity|].
+  eapply find_none in E; [|apply in_map; exact Hin]. cbn [fst] in E. unfold absd in E. rewrite path_eqb_refl in E. discriminate.
+Qed.
+
+Theorem open_render dir hint s q : good_dir dir = true -> WF s -> meta_disc hint s ->
+  open_table (render dir hint s) q =
+  match l_open s q with
+  | None => Err EStorage
+  | Some (k, L) => match L with
+                   | [] => Err EStorage
+                   | _ => Ok (mkOpened (md_name (lv (cur_meta s))) (Z.of_nat k) (map (absd dir) (usort L)))
+                   end
+  end.
+Proof.
+  intros Hd W D. unfold open_table. rewrite (latest_metadata_render dir hint s W D).
+  destruct (wf_metas _ W) as (m & rest & Hm).
+  assert (Hcm : cur_meta s = m) by (unfold cur_meta; now rewrite Hm). rewrite Hcm.
+  assert (Hlk : name_lookup (md_name (lv m)) (t_meta (render dir hint s)) = Some (render_meta dir m)).
+  { cbn [render t_meta]. rewrite Hm. cbn [map]. unfold name_lookup. cbn [find render_meta fst]. now rewrite bytes_eqb_refl. }
+  rewrite Hlk. cbn [render_meta md_fv md_snaps md_cur]. cbn [Z.eqb orb negb Pos.eqb].
+  unfold l_open. rewrite Hcm.
+  assert (Hn : NoDup (map ls_id (l_snaps m))) by (rewrite <- Hcm; apply (wf_listed_nodup _ W)).
+  set (want := match q with Some i => Some i | None => option_map Z.of_nat (l_cur m) end).
+  assert (Hch : match q with
+                | Some id => find_snap id (isort (fun a b => s_ts a <=? s_ts b) (map (render_snap dir) (l_snaps m)))
+                | None => match option_map Z.of_nat (l_cur m) with
+                          | Some c => find_snap c (isort (fun a b => s_ts a <=? s_ts b) (map (render_snap dir) (l_snaps m)))
+                          | None => None end
+                end = match want with
+                      | None => None
+                      | Some id => option_map (render_snap dir) (find (fun x => Z.of_nat (ls_id x) =? id) (l_snaps m))
+                      end).
+  { subst want. destruct q as [id|]; [now apply chosen_render|]. destruct (option_map Z.of_nat (l_cur m)); [now apply chosen_render | reflexivity]. }
+  rewrite Hch. destruct want as [id|]; [|reflexivity].
+  destruct (find (fun x => Z.of_nat (ls_id x) =? id) (l_snaps m)) as [x|] eqn:Ef; [|reflexivity].
+  cbn [option_map render_snap s_ml s_id].
+  apply find_some in Ef as [Hxin _].
+  assert (Hxs : In x (st_snaps s)) by (apply (wf_listed_in _ W); now rewrite Hcm).
+  cbn [render t_dir]. rewrite list_rel_eq, resolve_uri_forms; [|exact Hd|apply good_rel_in; [apply good_d_meta | apply good_list_file]].
+  change (absp dir (d_meta ++ slash :: list_file (ls_id x))) with (in_dir dir d_meta (list_file (ls_id x))).
+  unfold data_files_of.
+  assert (Hl : fs_lookup (in_dir dir d_meta (list_file (ls_id x))) (t_lists (render dir hint s))
+               = Some (map (fun i => uri_of (ls_form x) dir (man_rel i)) (ls_mans x))).
+  { cbn [render t_lists]. unfold render_list.
+    apply (lookup_store (st_snaps s) ls_id list_file (fun y => map (fun i => uri_of (ls_form y) dir (man_rel i)) (ls_mans y)));
+      auto using good_list_file, list_file_inj, good_d_meta, (wf_snaps_nodup _ W). }
+  rewrite Hl. rewrite (manifests_files_render dir hint s (ls_form x) (ls_mans x) Hd W (wf_mans_exist _ W x Hxs)).
+  set (L := live_names (st_mans s) (ls_mans x)).
+  assert (HL : forall n, In n L -> good_name n = true /\ In n (st_files s)).
+  { intros n Hn'. apply live_names_in in Hn' as (i & m' & e & _ & Hm' & _ & He & <-). apply (wf_names _ W m' Hm' e He). }
+  rewrite canon_files_render by (intros n Hn'; apply HL, Hn').
+  destruct L as [|a L'] eqn:EL.
+  - reflexivity.
+  - assert (Hex : forallb (file_exists (render dir hint s)) (map (absd dir) (usort (a :: L'))) = true).
+    { apply forallb_forall. intros p Hp. apply in_map_iff in Hp as (n & <- & Hn'). apply (proj1 (usort_in _ _)) in Hn'.
+      apply file_exists_render. apply HL, Hn'. }
+    remember (map (absd dir) (usort (a :: L'))) as fs eqn:Efs. destruct fs as [|f0 fr].
+    { symmetry in Efs. apply map_eq_nil in Efs. apply usort_nil in Efs. discriminate. }
+    rewrite Hex. reflexivity.
+Qed.
+
+(* ================================================================== *)
+(* Part 6: replayed histories vs the abstract semantics *)
+Definition snap_view (mans : list lman) (x : lsnap) : Z * list bytes :=
+  (Z.of_nat (ls_id x), live_names mans (ls_mans x)).
+
+Record INV (s : lstate) (a : astate) : Prop := {
+  iv_wf : WF s;
+  iv_sid_lt : forall x, In x (st_snaps s) -> (ls_id x < st_next_sid s)%nat;
+  iv_man_lt : forall m, In m (st_mans s) -> (lm_id m < st_next_man s)%nat;
+  iv_next : a_next a = st_next_sid s;
+  iv_cur : a_cur a = option_map Z.of_nat (l_cur (cur_meta s));
+  iv_snaps : a_snaps a = map (snap_view (st_mans s)) (l_snaps (cur_meta s));
+  iv_lv : lv (cur_meta s) = length (st_metas s);
+  iv_files_good : forall n, In n (st_files s) -> good_name n = true
+}.
+
+Lemma find_ext' {A} (P Q : A -> bool) l : (forall x, P x = Q x) -> find P l = find Q l.
+Proof. intros H. induction l as [|x l IH]; [reflexivity|]. cbn. rewrite H, IH. reflexivity. Qed.
+Lemma find_lman_app_fresh i new old : (forall m, In m new -> lm_id m <> i) -> find_lman i (new ++ old) = find_lman i old.
+Proof.
+  unfold find_lman. induction new as [|a new IH]; cbn [app find]; intros H; [reflexivity|].
+  destruct (Nat.eqb_spec (lm_id a) i) as [E|E]; [exfalso; eapply H; [now left | exact E]|].
+  apply IH. intros; apply H; now right.
+Qed.
+Lemma find_lman_skip i A m' B : lm_id m' <> i -> find_lman i (A ++ m' :: B) = find_lman i (A ++ B).
+Proof.
+  intros Hne. unfold find_lman. induction A as [|a A IH]; cbn [app find].
+  - destruct (Nat.eqb_spec (lm_id m') i); [contradiction | reflexivity].
+  - destruct (Nat.eqb (lm_id a) i); [reflexivity | exact IH].
+Qed.
+Lemma live_names_ext m1 m2 ids : (forall i, In i ids -> find_lman i m1 = find_lman i m2) -> live_names m1 ids = live_names m2 ids.
+Proof. unfold live_names. intros H. f_equal. apply map_ext_in. intros i Hi. unfold man_live. now rewrite H. Qed.
+Lemma live_names_fresh new old ids : (forall i, In i ids -> forall m, In m new -> lm_id m <> i) ->
+  live_names (new ++ old) ids = live_names old ids.
+Proof. intros H. apply live_names_ext. intros i Hi. apply find_lman_app_fresh. intros m Hm. now apply H. Qed.
+Lemma live_names_cons mans i ids : live_names mans (i :: ids) = man_live mans i ++ live_names mans ids.
+Proof. reflexivity. Qed.
+Lemma live_names_app mans a b : live_names mans (a ++ b) = live_names mans a ++ live_names mans b.
+Proof. unfold live_names. now rewrite map_app, concat_app. Qed.
+
+Lemma live_of_entries_map_live c names : c <> 2 -> live_of_entries (map (fun n => (c, n)) names) = names.
+Proof.
+  intros Hc. unfold live_of_entries. induction names as [|n names IH]; [reflexivity|]. cbn [map filter fst].
+  destruct (Z.eqb_spec c 2); [contradiction|]. cbn [negb map snd]. f_equal. exact IH.
+Qed.
+Lemma live_of_rewrite names es :
+  live_of_entries (rewrite_entries names es) = filter (fun n => negb (mem_bytes n names)) (live_of_entries es).
+Proof.
+  unfold rewrite_entries. induction es as [|[st n] es IH]; [reflexivity|].
+  rewrite live_of_entries_cons. cbn [filter fst]. destruct (st =? 2); cbn [negb]; [exact IH|].
+  cbn [map snd fst]. rewrite live_of_entries_cons. cbn [filter]. destruct (mem_bytes n names); cbn [negb Z.eqb]; [exact IH|].
+  f_equal. exact IH.
+Qed.
+Lemma untouched_filter names es : touches names es = false ->
+  filter (fun n => negb (mem_bytes n names)) (live_of_entries es) = live_of_entries es.
+Proof.
+  unfold touches. intros H. induction (live_of_entries es) as [|n l IH]; [reflexivity|]. cbn [existsb] in H.
+  apply orb_false_iff in H as [H1 H2]. cbn [filter]. rewrite H1. cbn [negb]. f_equal. now apply IH.
+Qed.
+Lemma NoDup_snoc {A} (l : list A) x : NoDup l -> ~ In x l -> NoDup (l ++ [x]).
+Proof.
+  intros H1 H2. eapply Permutation_NoDup; [apply Permutation_cons_append|]. now constructor.
+Qed.
+Lemma NoDup_app_intro {A} (a b : list A) : NoDup a -> NoDup b -> (forall x, In x a -> ~ In x b) -> NoDup (a ++ b).
+Proof.
+  induction a as [|x a IH]; intros Ha Hb Hd; [exact Hb|]. inversion Ha as [|? ? Hn Ha']; subst. cbn [app]. constructor.
+  - intros Hin. apply in_app_or in Hin as [Hin|Hin]; [contradiction | apply (Hd x); [now left | exact Hin]].
+  - apply IH; auto. intros y Hy. apply Hd. now right.
+Qed.
+Lemma NoDup_map_filter {A B} (f : A -> B) p l : NoDup (map f l) -> NoDup (map f (filter p l)).
+Proof.
+  induction l as [|x l IH]; intros H; [constructor|]. cbn in H. inversion H as [|? ? Hn H']; subst. cbn [filter].
+  destruct (p x); [|now apply IH]. cbn [map]. constructor; [|now apply IH].
+  intros Hin. apply Hn. apply in_map_iff in Hin as (y & <- & Hy). apply filter_In in Hy as [Hy _]. now apply in_map.
+Qed.
+
+Lemma rewrite_mans_spec all names f : NoDup (map lm_id all) ->
+  forall ids next ids' new,
+  (forall i, In i ids -> exists m, In m all /\ lm_id m = i) ->
+  (forall m, In m all -> (lm_id m < next)%nat) ->
+  rewrite_mans all names f next ids = (ids', new) ->
+  (forall m, In m new -> (next <= lm_id m < next + length new)%nat) /\
+  NoDup (map lm_id new) /\
+  (forall i, In i ids' -> exists m, In m (new ++ all) /\ lm_id m = i) /\
+  (forall m, In m new -> forall e, In e (lm_entries m) -> exists m0 e0, In m0 all /\ In e0 (lm_entries m0) /\ snd e0 = snd e) /\
+  live_names (new ++ all) ids' = filter (fun n => negb (mem_bytes n names)) (live_names all ids).
+Proof.
+  intros Hnd. induction ids as [|i r IH]; intros next ids' new Hex Hlt H; cbn [rewrite_mans] in H.
+  - inversion H; subst. split; [intros ? []|]. split; [constructor|]. split; [intros ? []|]. split; [intros ? []|]. reflexivity.
+  - destruct (Hex i (or_introl eq_refl)) as (m & Hm & Hi).
+    assert (Hf : find_lman i all = Some m) by (subst i; now apply find_lman_in). rewrite Hf in H.
+    assert (Hex' : forall j, In j r -> exists m, In m all /\ lm_id m = j) by (intros; apply Hex; now right).
+    destruct (touches names (lm_entries m)) eqn:Et.
+    + destruct (rewrite_mans all names f (S next) r) as [ids2 new2] eqn:E. inversion H; subst ids' new; clear H.
+      destruct (IH (S next) ids2 new2 Hex' (fun m0 H0 => Nat.lt_lt_succ_r _ _ (Hlt m0 H0)) E) as (C1 & C2 & C3 & C4 & C5).
+      set (m' := mkLman next f (rewrite_entries names (lm_entries m))).
+      assert (Hfresh2 : forall m0, In m0 new2 -> lm_id m0 <> next) by (intros m0 H0; specialize (C1 m0 H0); lia).
+      split; [|split; [|split; [|split]]].
+      * intros m0 H0. rewrite app_length. cbn [length]. apply in_app_or in H0 as [H0|[<-|[]]]; [specialize (C1 m0 H0); lia | cbn; lia].
+      * rewrite map_app. cbn [map]. apply NoDup_snoc; [exact C2|]. intros Hin. apply in_map_iff in Hin as (m0 & Hid & H0).
+        now apply (Hfresh2 m0 H0).
+      * intros j [<-|Hj].
+        -- exists m'. split; [apply in_or_app; left; apply in_or_app; right; now left | reflexivity].
+        -- destruct (C3 j Hj) as (m0 & H0 & Hid). exists m0. split; [|exact Hid].
+           apply in_app_or in H0 as [H0|H0]; apply in_or_app; [left; apply in_or_app; now left | now right].
+      * intros m0 H0 e He. apply in_app_or in H0 as [H0|[<-|[]]]; [now apply (C4 m0 H0 e He)|].
+        cbn [lm_entries m'] in He. unfold rewrite_entries in He. apply in_map_iff in He as (e0 & <- & He0).
+        apply filter_In in He0 as [He0 _]. exists m, e0. auto.
+      * rewrite !live_names_cons, filter_app. f_equal.
+        -- unfold man_live at 1. rewrite <- app_assoc. rewrite find_lman_app_fresh by exact Hfresh2.
+           cbn [app]. unfold find_lman. cbn [find lm_id m']. rewrite Nat.eqb_refl. cbn [lm_entries].
+           subst m'. cbn [lm_entries]. rewrite live_of_rewrite. unfold man_live. now rewrite Hf.
+        -- rewrite <- C5. apply live_names_ext. intros j Hj. rewrite <- app_assoc. cbn [app].
+           apply find_lman_skip. cbn [lm_id m']. destruct (C3 j Hj) as (m0 & H0 & <-).
+           apply in_app_or in H0 as [H0|H0]; [specialize (C1 m0 H0); lia | specialize (Hlt m0 H0); lia].
+    + destruct (rewrite_mans all names f next r) as [ids2 new2] eqn:E. inversion H; subst ids' new; clear H.
+      destruct (IH next ids2 new2 Hex' Hlt E) as (C1 & C2 & C3 & C4 & C5).
+      split; [exact C1|]. split; [exact C2|]. split; [|split; [exact C4|]].
+      * intros j [<-|Hj]; [exists m; split; [apply in_or_app; now right | exact Hi] | now apply C3].
+      * rewrite !live_names_cons, filter_app. f_equal; [|exact C5].
+        unfold man_live. rewrite find_lman_app_fresh.
+        -- rewrite Hf. symmetry. now apply untouched_filter.
+        -- intros m0 H0. specialize (C1 m0 H0). specialize (Hlt m Hm). lia.
+Qed.
+
+(* every step writes exactly one new metadata file *)
+Lemma l_step_metas s o : exists m', st_metas (l_step s o) = m' :: st_metas s /\ lv m' = S (lv (cur_meta s)) /\
+  l_lu m' = st_clock s + op_dt o /\ st_clock (l_step s o) = st_clock s + op_dt o.
+Proof.
+  destruct o; cbn [l_step op_dt]; try (eexists; cbn; repeat split; reflexivity).
+  destruct (rewrite_mans (st_mans s) names f (st_next_man s) (cur_mans s)) as [ids new]. eexists; cbn; repeat split; reflexivity.
+Qed.
+
+Lemma cur_mans_in s a : INV s a -> forall i, In i (cur_mans s) -> exists m, In m (st_mans s) /\ lm_id m = i.
+Proof.
+  intros I i Hi. unfold cur_mans in Hi. destruct (l_cur (cur_meta s)) as [c|]; [|contradiction].
+  destruct (find_lsnap c (l_snaps (cur_meta s))) as [x|] eqn:E; [|contradiction].
+  apply find_some in E as [Hx _]. apply (wf_mans_exist _ (iv_wf _ _ I) x); [|exact Hi]. now apply (wf_listed_in _ (iv_wf _ _ I)).
+Qed.
+
+Lemma a_lookup_view mans L id :
+  a_lookup id (map (snap_view mans) L) = option_map (fun x => live_names mans (ls_mans x)) (find (fun x => Z.of_nat (ls_id x) =? id) L).
+Proof.
+  unfold a_lookup. rewrite find_map. cbn [snap_view fst]. destruct (find _ L); reflexivity.
+Qed.
+Lemma alive_eq s a : INV s a -> a_alive a = live_names (st_mans s) (cur_mans s).
+Proof.
+  intros I. unfold a_alive, cur_mans. rewrite (iv_cur _ _ I), (iv_snaps _ _ I).
+  destruct (l_cur (cur_meta s)) as [c|]; cbn [option_map]; [|reflexivity].
+  rewrite a_lookup_view. unfold find_lsnap.
+  rewrite (find_ext' (fun x => Z.of_nat (ls_id x) =? Z.of_nat c) (fun x => Nat.eqb (ls_id x) c)).
+  - destruct (find _ (l_snaps (cur_meta s))); reflexivity.
+  - intros x. destruct (Nat.eqb_spec (ls_id x) c) as [->|Hne]; [apply Z.eqb_refl|]. apply Z.eqb_neq. lia.
+Qed.
+
+Lemma commit_INV s a dt f mans newmans files Lnew :
+  INV s a ->
+  (forall m, In m newmans -> (st_next_man s <= lm_id m < st_next_man s + length newmans)%nat) ->
+  NoDup (map lm_id newmans) ->
+  (forall i, In i mans -> exists m, In m (newmans ++ st_mans s) /\ lm_id m = i) ->
+  (forall m, In m newmans -> forall e, In e (lm_entries m) -> good_name (snd e) = true /\ In (snd e) (files ++ st_files s)) ->
+  (forall n, In n files -> good_name n = true) ->
+  live_names (newmans ++ st_mans s) mans = Lnew ->
+  INV (commit s dt f mans newmans files) (a_commit a Lnew).
+Proof.
+  intros I Hrange Hnd Hex Hnames Hfg Hlive. pose proof (iv_wf _ _ I) as W.
+  assert (Hfresh : forall x, In x (st_snaps s) -> forall i, In i (ls_mans x) -> forall m, In m newmans -> lm_id m <> i).
+  { intros x Hx i Hi m Hm He. destruct (wf_mans_exist _ W x Hx i Hi) as (m0 & H0 & Hid).
+    pose proof (iv_man_lt _ _ I m0 H0). specialize (Hrange m Hm). lia. }
+  set (snap := mkLsnap (st_next_sid s) (st_clock s + dt) f mans).
+  assert (Hsid : ~ In (st_next_sid s) (map ls_id (st_snaps s))).
+  { intros Hin. apply in_map_iff in Hin as (x & He & Hx). pose proof (iv_sid_lt _ _ I x Hx). lia. }
+  constructor; unfold commit; cbn [st_metas st_snaps st_mans st_files st_next_sid st_next_man cur_meta hd l_snaps l_cur lv a_commit a_next a_cur a_snaps].
+  - constructor; cbn [st_metas st_snaps st_mans st_files cur_meta hd l_snaps].
+    + eexists; eexists; reflexivity.
+    + rewrite map_app. cbn [map ls_id]. apply NoDup_snoc; [apply (wf_listed_nodup _ W)|].
+      intros Hin. apply Hsid. apply in_map_iff in Hin as (x & He & Hx). apply in_map_iff. exists x. split; [exact He|]. now apply (wf_listed_in _ W).
+    + intros x Hx. apply in_app_or in Hx as [Hx|[<-|[]]]; [right; now apply (wf_listed_in _ W) | now left].
+    + cbn [map ls_id]. constructor; [exact Hsid | apply (wf_snaps_nodup _ W)].
+    + rewrite map_app. apply NoDup_app_intro; [exact Hnd | apply (wf_mans_nodup _ W)|].
+      intros i Hi Hi'. apply in_map_iff in Hi as (m1 & <- & H1). apply in_map_iff in Hi' as (m0 & He & H0).
+      pose proof (iv_man_lt _ _ I m0 H0). specialize (Hrange m1 H1). lia.
+    + intros x [<-|Hx] i Hi.
+      * now apply Hex.
+      * destruct (wf_mans_exist _ W x Hx i Hi) as (m0 & H0 & Hid). exists m0. split; [apply in_or_app; now right | exact Hid].
+    + intros m Hm e He. apply in_app_or in Hm as [Hm|Hm]; [now apply Hnames with m|].
+      destruct (wf_names _ W m Hm e He) as [? ?]. split; [assumption | apply in_or_app; now right].
+  - intros x [<-|Hx]; [cbn; lia|]. pose proof (iv_sid_lt _ _ I x Hx). lia.
+  - intros m Hm. apply in_app_or in Hm as [Hm|Hm]; [specialize (Hrange m Hm); lia | pose proof (iv_man_lt _ _ I m Hm); lia].
+  - now rewrite (iv_next _ _ I).
+  - now rewrite (iv_next _ _ I).
+  - rewrite map_app, (iv_snaps _ _ I). cbn [map]. f_equal.
+    + apply map_ext_in. intros x Hx. unfold snap_view. f_equal. symmetry. apply live_names_fresh.
+      intros i Hi m Hm. apply (Hfresh x); auto. now apply (wf_listed_in _ W).
+    + unfold snap_view. cbn [ls_id ls_mans snap]. now rewrite (iv_next _ _ I), Hlive.
+  - cbn [length]. now rewrite (iv_lv _ _ I).
+  - intros n Hn. apply in_app_or in Hn as [Hn|Hn]; [now apply Hfg | now apply (iv_files_good _ _ I)].
+Qed.
+
+Lemma push_INV s a dt cur snaps a' :
+  INV s a -> (forall x, In x snaps -> In x (l_snaps (cur_meta s))) -> NoDup (map ls_id snaps) ->
+  a_next a' = a_next a -> a_cur a' = option_map Z.of_nat cur -> a_snaps a' = map (snap_view (st_mans s)) snaps ->
+  INV (push_meta s dt cur snaps) a'.
+Proof.
+  intros I Hsub Hnd Hn Hc Hs. pose proof (iv_wf _ _ I) as W.
+  constructor; unfold push_meta; cbn [st_metas st_snaps st_mans st_files st_next_sid st_next_man cur_meta hd l_snaps l_cur lv].
+  - constructor; cbn [st_metas st_snaps st_mans st_files cur_meta hd l_snaps].
+    + eexists; eexists; reflexivity.
+    + exact Hnd.
+    + intros x Hx. apply (wf_listed_in _ W). now apply Hsub.
+    + apply (wf_snaps_nodup _ W).
+    + apply (wf_mans_nodup _ W).
+    + apply (wf_mans_exist _ W).
+    + apply (wf_names _ W).
+  - apply (iv_sid_lt _ _ I).
+  - apply (iv_man_lt _ _ I).
+  - rewrite Hn. apply (iv_next _ _ I).
+  - exact Hc.
+  - exact Hs.
+  - cbn [length]. now rewrite (iv_lv _ _ I).
+  - apply (iv_files_good _ _ I).
+Qed.
+
+Lemma init_INV : INV l_init a_init.
+Proof.
+  constructor.
+  - constructor; cbn.
+    + eexists; eexists; reflexivity.
+    + constructor.
+    + intros ? [].
+    + constructor.
+    + constructor.
+    + intros ? [].
+    + intros ? [].
+  - intros ? [].
+  - intros ? [].
+  - reflexivity.
+  - reflexivity.
+  - reflexivity.
+  - reflexivity.
+  - intros ? [].
+Qed.
+
+Lemma step_INV s a o : INV s a -> op_names_ok o = true -> INV (l_step s o) (a_step a o).
+Proof.
+  intros I Hok. pose proof (iv_wf _ _ I) as W. destruct o as [dt f names|dt f names|dt f|dt|dt sid|dt sid]; cbn [l_step a_step].
+  - (* Append *)
+    apply commit_INV; auto.
+    + intros m [<-|[]]. cbn. lia.
+    + cbn. constructor; [intros []|constructor].
+    + intros i Hi. apply in_app_or in Hi as [Hi|[<-|[]]].
+      * destruct (cur_mans_in _ _ I i Hi) as (m & Hm & Hid). exists m. split; [now right | exact Hid].
+      * eexists. split; [now left | reflexivity].
+    + intros m [<-|[]] e He. cbn [lm_entries] in He. apply in_map_iff in He as (n & <- & Hn). cbn [snd].
+      cbn [op_names_ok] in Hok. rewrite forallb_forall in Hok. split; [now apply Hok | apply in_or_app; now left].
+    + cbn [op_names_ok] in Hok. rewrite forallb_forall in Hok. exact Hok.
+    + rewrite live_names_app, (alive_eq _ _ I). f_equal.
+      * change (mkLman (st_next_man s) f (map (fun n => (1, n)) names) :: st_mans s) with ([mkLman (st_next_man s) f (map (fun n => (1, n)) names)] ++ st_mans s).
+        apply live_names_fresh. intros i Hi m [<-|[]]. cbn [lm_id]. destruct (cur_mans_in _ _ I i Hi) as (m0 & H0 & <-).
+        pose proof (iv_man_lt _ _ I m0 H0). lia.
+      * unfold live_names. cbn [map concat]. rewrite app_nil_r. unfold man_live, find_lman. cbn [app find lm_id]. rewrite Nat.eqb_refl.
+        cbn [lm_entries]. apply live_of_entries_map_live. discriminate.
+  - (* Remove *)
+    destruct (rewrite_mans (st_mans s) names f (st_next_man s) (cur_mans s)) as [ids new] eqn:E.
+    destruct (rewrite_mans_spec _ names f (wf_mans_nodup _ W) _ _ _ _ (cur_mans_in _ _ I) (iv_man_lt _ _ I) E) as (C1 & C2 & C3 & C4 & C5).
+    apply commit_INV; auto.
+    + intros m Hm e He. destruct (C4 m Hm e He) as (m0 & e0 & H0 & He0 & <-). cbn [app]. apply (wf_names _ W m0 H0 e0 He0).
+    + now rewrite C5, (alive_eq _ _ I).
+  - (* RewriteManifests *)
+    apply commit_INV; auto.
+    + intros m [<-|[]]. cbn. lia.
+    + cbn. constructor; [intros []|constructor].
+    + intros i [<-|[]]. eexists. split; [now left | reflexivity].
+    + intros m [<-|[]] e He. cbn [lm_entries] in He. apply in_map_iff in He as (n & <- & Hn). cbn [snd app].
+      apply live_names_in in Hn as (i & m0 & e0 & _ & H0 & _ & He0 & <-). apply (wf_names _ W m0 H0 e0 He0).
+    + unfold live_names at 1. cbn [map concat]. rewrite app_nil_r. unfold man_live, find_lman. cbn [app find lm_id]. rewrite Nat.eqb_refl.
+      cbn [lm_entries]. rewrite live_of_entries_map_live by discriminate. symmetry. apply (alive_eq _ _ I).
+  - (* RewriteMeta *)
+    apply push_INV with (a := a); auto using (wf_listed_nodup _ W), (iv_cur _ _ I), (iv_snaps _ _ I).
+  - (* SetCurrent *)
+    rewrite (iv_snaps _ _ I), a_lookup_view.
+    destruct (find (fun x => Z.of_nat (ls_id x) =? sid) (l_snaps (cur_meta s))) as [x|] eqn:Ef; cbn [option_map].
+    + assert (Hex : existsb (fun x => Z.of_nat (ls_id x) =? sid) (l_snaps (cur_meta s)) = true).
+      { apply find_some in Ef as [Hx Hp]. apply existsb_exists. eauto. }
+      rewrite Hex. apply push_INV with (a := a); [exact I | auto | apply (wf_listed_nodup _ W) | reflexivity | | reflexivity].
+      cbn [a_cur option_map]. apply find_some in Ef as [_ Hp]. apply Z.eqb_eq in Hp. f_equal. rewrite <- Hp. now rewrite Nat2Z.id.
+    + assert (Hex : existsb (fun x => Z.of_nat (ls_id x) =? sid) (l_snaps (cur_meta s)) = false).
+      { destruct (existsb _ _) eqn:Ex; [|reflexivity]. apply existsb_exists in Ex as (x & Hx & Hp). pose proof (find_none _ _ Ef x Hx) as Hf. cbn beta in Hf. congruence. }
+      rewrite Hex. apply push_INV with (a := a); auto using (wf_listed_nodup _ W), (iv_cur _ _ I), (iv_snaps _ _ I).
+  - (* Expire *)
+    assert (Hfilt : map (snap_view (st_mans s)) (filter (fun x => negb (Z.of_nat (ls_id x) =? sid)) (l_snaps (cur_meta s)))
+                    = filter (fun kv => negb (fst kv =? sid)) (a_snaps a)).
+    { rewrite (iv_snaps _ _ I). clear. induction (l_snaps (cur_meta s)) as [|x l IH]; [reflexivity|].
+      cbn [map filter snap_view fst]. destruct (Z.of_nat (ls_id x) =? sid); cbn [negb map]; [exact IH | now rewrite IH]. }
+    rewrite (iv_cur _ _ I). destruct (l_cur (cur_meta s)) as [c|] eqn:Ec; cbn [option_map].
+    + destruct (Z.of_nat c =? sid) eqn:Ecs.
+      * apply push_INV with (a := a); [exact I | auto | apply (wf_listed_nodup _ W) | reflexivity | | exact (iv_snaps _ _ I)].
+        now rewrite (iv_cur _ _ I), Ec.
+      * apply push_INV with (a := a); [exact I | intros x Hx; now apply filter_In in Hx as [Hx _]
+                                      | apply NoDup_map_filter, (wf_listed_nodup _ W) | reflexivity | | symmetry; exact Hfilt].
+        cbn [a_cur]. first [reflexivity | now rewrite (iv_cur _ _ I), Ec].
+    + apply push_INV with (a := a); [exact I | intros x Hx; now apply filter_In in Hx as [Hx _]
+                                    | apply NoDup_map_filter, (wf_listed_nodup _ W) | reflexivity | | symmetry; exact Hfilt].
+      cbn [a_cur]. first [reflexivity | now rewrite (iv_cur _ _ I), Ec].
+Qed.
+
+Lemma fold_INV h : forall s a, INV s a -> wf_history h = true -> INV (fold_left l_step h s) (fold_left a_step h a).
+Proof.
+  induction h as [|o h IH]; intros s a I Hw; [exact I|]. cbn [fold_left]. cbn [wf_history forallb] in Hw.
+  apply andb_true_iff in Hw as [Ho Hh]. apply IH; [now apply step_INV | exact Hh].
+Qed.
+Lemma replay_INV h : wf_history h = true -> INV (replay h) (abstract h).
+Proof. intros H. apply fold_INV; [apply init_INV | exact H]. Qed.
+
+(* ================================================================== *)
+(* Part 7: main theorems *)
+Record CLK (s : lstate) : Prop := {
+  ck_le : forall m, In m (st_metas s) -> l_lu m <= st_clock s;
+  ck_hd : l_lu (cur_meta s) = st_clock s;
+  ck_tl : forall m, In m (tl (st_metas s)) -> l_lu m < l_lu (cur_meta s)
+}.
+Lemma step_CLK s o : CLK s -> 0 < op_dt o -> CLK (l_step s o).
+Proof.
+  intros C Hdt. destruct (l_step_metas s o) as (m' & Hm & _ & Hlu & Hck).
+  constructor; unfold cur_meta; rewrite Hm, ?Hck; cbn [hd tl].
+  - intros m [<-|Hin]; [lia|]. pose proof (ck_le _ C m Hin). lia.
+  - exact Hlu.
+  - intros m Hin. pose proof (ck_le _ C m Hin). rewrite Hlu. lia.
+Qed.
+Lemma fold_CLK h : forall s, CLK s -> strict_clock h = true -> CLK (fold_left l_step h s).
+Proof.
+  induction h as [|o h IH]; intros s C Hs; [exact C|]. cbn [fold_left]. cbn [strict_clock forallb] in Hs.
+  apply andb_true_iff in Hs as [Ho Hh]. apply IH; [|exact Hh]. apply step_CLK; [exact C | now apply Z.ltb_lt].
+Qed.
+Lemma init_CLK : CLK l_init.
+Proof. constructor; cbn; [intros m [<-|[]]; cbn; lia | reflexivity | intros ? []]. Qed.
+
+Lemma fold_metas_length h : forall s, length (st_metas (fold_left l_step h s)) = (length (st_metas s) + length h)%nat.
+Proof.
+  induction h as [|o h IH]; intros s; cbn [fold_left length]; [lia|]. rewrite IH.
+  destruct (l_step_metas s o) as (m' & Hm & _). rewrite Hm. cbn [length]. lia.
+Qed.
+
+Lemma spec_open_l_open s a q : INV s a ->
+  spec_open a q = match l_open s q with
+                  | None => SRefuse
+                  | Some (k, L) => match L with [] => SRefuse | _ => SFiles (Z.of_nat k) (usort L) end
+                  end.
+Proof.
+  intros I. unfold spec_open, l_open. rewrite (iv_cur _ _ I), (iv_snaps _ _ I).
+  destruct (match q with Some i => Some i | None => option_map Z.of_nat (l_cur (cur_meta s)) end) as [id|]; [|reflexivity].
+  rewrite a_lookup_view. destruct (find (fun x => Z.of_nat (ls_id x) =? id) (l_snaps (cur_meta s))) as [x|] eqn:E; [|reflexivity].
+  cbn [option_map]. apply find_some in E as [_ E]. apply Z.eqb_eq in E. now rewrite E.
+Qed.
+
+(* THE theorem: reading a replayed history (current, or at any snapshot id) returns exactly the
+   sorted duplicate-free live set the abstract semantics assigns, and is refused otherwise *)
+Theorem snapshot_files_exact dir hint h q :
+  good_dir dir = true -> wf_history h = true -> (hint = true \/ strict_clock h = true) ->
+  open_table (replay_table dir hint h) q =
+  match spec_open (abstract h) q with
+  | SRefuse => Err EStorage
+  | SFiles sid names => Ok (mkOpened (md_name (S (length h))) sid (map (fun n => absp dir (data_rel n)) names))
+  end.
+Proof.
+  intros Hd Hw Hc. pose proof (replay_INV h Hw) as I. unfold replay_table.
+  rewrite (open_render dir hint (replay h) q Hd (iv_wf _ _ I)).
+  - rewrite (spec_open_l_open _ _ q I). rewrite (iv_lv _ _ I). unfold replay at 2. rewrite fold_metas_length. cbn [l_init st_metas length plus].
+    destruct (l_open (replay h) q) as [[k L]|]; [|reflexivity]. destruct L; reflexivity.
+  - destruct Hc as [->|Hs]; [now left|]. right. apply (ck_tl _ (fold_CLK h l_init init_CLK Hs)).
+Qed.
+
+(* unfoldings of spec_open, for reading the statement *)
+Lemma spec_open_listed h sid L : live h sid = Some L -> L <> [] -> spec_open (abstract h) (Some sid) = SFiles sid (usort L).
+Proof. unfold live, spec_open. intros -> H. destruct L; [congruence | reflexivity]. Qed.
+Lemma spec_open_unknown h sid : live h sid = None -> spec_open (abstract h) (Some sid) = SRefuse.
+Proof. unfold live, spec_open. now intros ->. Qed.
+Lemma spec_open_empty h sid : live h sid = Some [] -> spec_open (abstract h) (Some sid) = SRefuse.
+Proof. unfold live, spec_open. now intros ->. Qed.
+Lemma spec_open_current h : spec_open (abstract h) None = match current h with Some c => spec_open (abstract h) (Some c) | None => SRefuse end.
+Proof. unfold spec_open, current. destruct (a_cur (abstract h)); reflexivity. Qed.
+
+(* the model's output on a replayed history passes the executable spec the check applies to the engine *)
+Lemma list_eqb_refl_Z l : list_eqb Z.eqb l l = true.
+Proof. apply list_eqb_spec; [intros; apply Z.eqb_eq | reflexivity]. Qed.
+
+Lemma rows_of_render dir hint s names : 
+  (forall n, In n (st_files s) -> good_name n = true) -> (forall n, In n names -> In n (st_files s)) ->
+  rows_of (render dir hint s) (map (absd dir) names) = concat (map name_rows names).
+Proof.
+  intros Hg Hin. unfold rows_of. rewrite map_map. f_equal. apply map_ext_in. intros n Hn.
+  unfold fs_lookup. cbn [render t_data].
+  specialize (Hin n Hn). assert (Hgn : good_name n = true) by now apply Hg.
+  induction (st_files s) as [|n0 l IH]; [contradiction|]. cbn [map find fst].
+  change (absp dir (data_rel n0)) with (in_dir dir d_data n0). change (absd dir n) with (in_dir dir d_data n).
+  rewrite path_eqb_in_dir; auto using good_d_data; [|apply Hg; now left].
+  destruct (bytes_eqb n n0) eqn:E.
+  - apply bytes_eqb_spec in E. now subst.
+  - destruct Hin as [->|Hin]; [rewrite bytes_eqb_refl in E; discriminate|]. apply IH; auto. intros; apply Hg; now right.
+Qed.
+
+Lemma same_file_set_render dir names : NoDup names -> (forall n, In n names -> good_name n = true) ->
+  same_file_set (map (absd dir) names) (map (absd dir) names) = true.
+Proof.
+  intros Hnd Hg. unfold same_file_set.
+  assert (Hmem : forallb (fun f => mem_path f (map (absd dir) names)) (map (absd dir) names) = true).
+  { apply forallb_forall. intros p Hp. unfold mem_path. apply existsb_exists. exists p. split; [exact Hp | apply path_eqb_refl]. }
+  rewrite Hmem. cbn [andb]. clear Hmem.
+  induction names as [|n l IH]; [reflexivity|]. cbn [map nodup_paths]. inversion Hnd as [|? ? Hn Hnd']; subst.
+  rewrite IH; [|exact Hnd'|intros; apply Hg; now right]. rewrite andb_true_r. apply negb_true_iff.
+  destruct (mem_path (absd dir n) (map (absd dir) l)) eqn:E; [|reflexivity].
+  unfold mem_path in E. apply existsb_exists in E as (p & Hp & He). apply in_map_iff in Hp as (n0 & <- & Hn0).
+  change (absd dir n) with (in_dir dir d_data n) in He. change (absd dir n0) with (in_dir dir d_data n0) in He.
+  rewrite path_eqb_in_dir in He; auto using good_d_data; [|apply Hg; now left|apply Hg; now right].
+  apply bytes_eqb_spec in He. subst. contradiction.
+Qed.
+
+Theorem model_meets_spec dir hint h q :
+  good_dir dir = true -> wf_history h = true -> (hint = true \/ strict_clock h = true) ->
+  spec_ok_hist dir h q (impl_of (replay_table dir hint h) (open_table (replay_table dir hint h) q)) = true.
+Proof.
+  intros Hd Hw Hc. rewrite (snapshot_files_exact dir hint h q Hd Hw Hc). unfold spec_ok_hist.
+  pose proof (replay_INV h Hw) as I.
+  destruct (spec_open (abstract h) q) as [|sid names] eqn:Es; [reflexivity|].
+  cbn [impl_of o_md o_sid o_files]. rewrite Z.eqb_refl. cbn [andb].
+  (* names = usort L for a listed snapshot's live set L *)
+  rewrite (spec_open_l_open _ _ q I) in Es.
+  destruct (l_open (replay h) q) as [[k L]|] eqn:El; [|discriminate]. destruct L as [|a L'] eqn:EL; [discriminate|].
+  inversion Es; subst sid names. clear Es.
+  assert (HL : forall n, In n (usort (a :: L')) -> good_name n = true /\ In n (st_files (replay h))).
+  { intros n Hn. apply (proj1 (usort_in _ _)) in Hn. unfold l_open in El.
+    destruct (match q with Some i => Some i | None => option_map Z.of_nat (l_cur (cur_meta (replay h))) end); [|discriminate].
+    destruct (find _ (l_snaps (cur_meta (replay h)))) as [x|]; [|discriminate]. inversion El as [[Hk HLx]].
+    rewrite <- HLx in Hn. apply live_names_in in Hn as (i & m & e & _ & Hm & _ & He & <-).
+    apply (wf_names _ (iv_wf _ _ I) m Hm e He). }
+  change (fun n => absp dir (data_rel n)) with (absd dir).
+  rewrite same_file_set_render; [|apply usort_nodup|intros n Hn; apply HL, Hn]. cbn [andb].
+  unfold replay_table. rewrite rows_of_render; [apply list_eqb_refl_Z|apply (iv_files_good _ _ I)|intros n Hn; apply HL, Hn].
+Qed.
+
+(* ---- refutation: without version-hint, two commits in the same millisecond are ordered by FILE NAME,
+        and "v10.metadata.json" < "v9.metadata.json": the reader serves the stale v9 ---- *)
+Definition tie_history : history :=
+  Append 5 FFile3 [bs "f1.parquet"] :: repeat (RewriteMeta 1) 7 ++ [Append 0 FFile3 [bs "f2.parquet"]].
+Definition tdir0 : bytes := bs "/t".
+Theorem equal_timestamp_tie_refuted :
+  exists dir h, good_dir dir = true /\ wf_history h = true /\ forallb (fun o => 0 <=? op_dt o) h = true /\
+    spec_open (abstract h) None = SFiles 2 [bs "f1.parquet"; bs "f2.parquet"] /\
+    open_table (replay_table dir false h) None
+      = Ok (mkOpened (bs "v9.metadata.json") 1 [absp dir (data_rel (bs "f1.parquet"))]).
+Proof. exists tdir0, tie_history. vm_compute. repeat split; reflexivity. Qed.
+
+(* satisfiability of the hypotheses: a concrete non-trivial history, both discovery modes *)
+Definition ex_history : history :=
+  [Append 5 FFile3 [bs "f1.parquet"; bs "f2.parquet"]; Remove 5 FRel [bs "f1.parquet"];
+   Append 5 FFile1 [bs "f1.parquet"; bs "a.parquet"]; RewriteManifests 1 FAbs; Expire 1 1; SetCurrent 2 2].
+Example ex_hyps : good_dir tdir0 = true /\ wf_history ex_history = true /\ strict_clock ex_history = true.
+Proof. vm_compute. auto. Qed.
+Example ex_reads :
+  map (fun q => match open_table (replay_table tdir0 false ex_history) q with Ok o => Some (o_sid o, List.length (o_files o)) | Err _ => None end)
+      [None; Some 1; Some 2; Some 3; Some 4; Some 9]
+  = [Some (2, 1%nat); None; Some (2, 1%nat); Some (3, 3%nat); Some (4, 3%nat); None].
+Proof. vm_compute. reflexivity. Qed.
+
+(* corollaries in the property's own words *)
+Section Corollaries.
+  Variables (dir : bytes) (hint : bool) (h : history).
+  Hypothesis Hd : good_dir dir = true.
+  Hypothesis Hw : wf_history h = true.
+  Hypothesis Hc : hint = true \/ strict_clock h = true.
+  Let T := replay_table dir hint h.
+
+  Lemma listed_snapshot_read sid L : live h sid = Some L -> L <> [] ->
+    open_table T (Some sid) = Ok (mkOpened (md_name (S (length h))) sid (map (fun n => absp dir (data_rel n)) (usort L))).
+  Proof. intros H1 H2. unfold T. rewrite snapshot_files_exact by assumption. now rewrite (spec_open_listed h sid L H1 H2). Qed.
+  Lemma current_snapshot_read :
+    open_table T None = match current h with Some c => open_table T (Some c) | None => Err EStorage end.
+  Proof.
+    unfold T. rewrite !snapshot_files_exact by assumption. rewrite spec_open_current.
+    destruct (current h) as [c|]; [|reflexivity]. now rewrite snapshot_files_exact by assumption.
+  Qed.
+  Lemma unknown_snapshot_refused sid : live h sid = None -> open_table T (Some sid) = Err EStorage.
+  Proof. intros H1. unfold T. rewrite snapshot_files_exact by assumption. now rewrite (spec_open_unknown h sid H1). Qed.
+  Lemma empty_snapshot_refused sid : live h sid = Some [] -> open_table T (Some sid) = Err EStorage.
+  Proof. intros H1. unfold T. rewrite snapshot_files_exact by assumption. now rewrite (spec_open_empty h sid H1). Qed.
+End Corollaries.
+
+(* ================================================================== *)
+(* The order in which read_dir lists metadata/ is immaterial: latest_metadata picks the maximum of a strict
+   total order on (last-updated-ms, file name), or fails on an unreadable *.metadata.json wherever it is listed. *)
+Definition is_bad (kv : bytes * option metadata) : bool :=
+  ends_with md_suffix (fst kv) && match snd kv with None => true | Some _ => false end.
+Fixpoint keys (l : list (bytes * option metadata)) : list (Z * bytes) :=
+  match l with
+  | [] => []
+  | (name, body) :: r =>
+      if ends_with md_suffix name then match body with Some md => (md_lu md, name) :: keys r | None => keys r end
+      else keys r
+  end.
+Definition pick (b : option (Z * bytes)) (k : Z * bytes) : option (Z * bytes) :=
+  match b with None => Some k | Some b' => if key_gt k b' then Some k else b end.
+
+Lemma scan_meta_ok l : forall best, existsb is_bad l = false -> scan_meta l best = Ok (fold_left pick (keys l) best).
+Proof.
+  induction l as [|[name body] r IH]; intros best H; [reflexivity|]. cbn [existsb] in H. apply orb_false_iff in H as [H1 H2].
+  unfold is_bad in H1. cbn [fst snd] in H1. cbn [scan_meta keys].
+  destruct (ends_with md_suffix name); cbn [negb andb] in *; [|now apply IH].
+  destruct body as [md|]; [|discriminate]. cbn [fold_left]. rewrite IH by exact H2. reflexivity.
+Qed.
+Lemma scan_meta_bad l : forall best, existsb is_bad l = true -> scan_meta l best = Err EStorage.
+Proof.
+  induction l as [|[name body] r IH]; intros best H; [discriminate|]. cbn [existsb] in H. cbn [scan_meta].
+  unfold is_bad in H. cbn [fst snd] in H.
+  destruct (ends_with md_suffix name); cbn [negb andb orb] in *; [|now apply IH].
+  destruct body as [md|]; [|reflexivity]. cbn [orb] in H. now apply IH.
+Qed.
+
+Lemma key_gt_spec a b : key_gt a b = true <-> (fst b < fst a \/ (fst a = fst b /\ bytes_cmp (snd b) (snd a) = Lt)).
+Proof.
+  unfold key_gt. destruct (Z.compare_spec (fst a) (fst b)) as [E|E|E].
+  - rewrite (bytes_cmp_antisym (snd b) (snd a)). destruct (bytes_cmp (snd b) (snd a)); cbn; split; intros H; try discriminate; auto;
+      destruct H as [H|[_ H]]; try lia; discriminate.
+  - split; [discriminate|]. intros [H|[H _]]; lia.
+  - split; auto.
+Qed.
+Lemma key_gt_trans a b c : key_gt a b = true -> key_gt b c = true -> key_gt a c = true.
+Proof.
+  rewrite !key_gt_spec. intros [H1|[H1 H1']] [H2|[H2 H2']]; try (left; lia).
+  right. split; [congruence|]. eapply bytes_lt_trans; eauto.
+Qed.
+Lemma key_trichotomy a b : key_gt a b = false -> key_gt b a = false -> a = b.
+Proof.
+  intros H1 H2. destruct a as [t1 n1], b as [t2 n2].
+  assert (N1 : ~ (t2 < t1 \/ (t1 = t2 /\ bytes_cmp n2 n1 = Lt))) by (intros H; apply (key_gt_spec (t1, n1) (t2, n2)) in H; congruence).
+  assert (N2 : ~ (t1 < t2 \/ (t2 = t1 /\ bytes_cmp n1 n2 = Lt))) by (intros H; apply (key_gt_spec (t2, n2) (t1, n1)) in H; congruence).
+  assert (t1 = t2) by lia. subst. f_equal.
+  destruct (bytes_cmp n1 n2) eqn:E.
+  - now apply bytes_cmp_eq.
+  - exfalso. apply N2. auto.
+  - exfalso. apply N1. right. split; [reflexivity|]. rewrite (bytes_cmp_antisym n1 n2), E. reflexivity.
+Qed.
+Lemma key_neg_trans k b m : key_gt k b = false -> key_gt b m = false -> key_gt k m = false.
+Proof.
+  intros H1 H2. destruct (key_gt k m) eqn:E; [|reflexivity]. exfalso.
+  destruct (key_gt m b) eqn:E2.
+  - rewrite (key_gt_trans _ _ _ E E2) in H1. discriminate.
+  - assert (b = m) by (apply key_trichotomy; assumption). subst. congruence.
+Qed.
+
+Lemma fold_pick_max ks : forall b m, fold_left pick ks (Some b) = Some m ->
+  (m = b \/ In m ks) /\ (forall k, k = b \/ In k ks -> key_gt k m = false).
+Proof.
+  induction ks as [|k ks IH]; intros b m H; cbn [fold_left pick] in H.
+  - inversion H; subst. split; [now left|]. intros k [->|[]]. unfold key_gt. rewrite Z.compare_refl, bytes_cmp_refl. reflexivity.
+  - destruct (key_gt k b) eqn:E.
+    + destruct (IH _ _ H) as [A B]. split; [destruct A as [->|A]; right; [now left | now right]|].
+      intros k' [->|[->|Hk]]; [|apply B; now left|apply B; now right].
+      destruct (key_gt b m) eqn:E2; [|reflexivity]. pose proof (B k (or_introl eq_refl)) as Bk. rewrite (key_gt_trans _ _ _ E E2) in Bk. discriminate Bk.
+    + destruct (IH _ _ H) as [A B]. split; [destruct A as [->|A]; [now left | right; now right]|].
+      intros k' [->|[->|Hk]]; [apply B; now left | |apply B; now right].
+      eapply key_neg_trans; [exact E | apply B; now left].
+Qed.
+Lemma fold_pick_some ks b : exists m, fold_left pick ks (Some b) = Some m.
+Proof. revert b; induction ks as [|k ks IH]; intros b; cbn [fold_left pick]; [eauto|]. destruct (key_gt k b); apply IH. Qed.
+
+Lemma fold_pick_perm ks1 ks2 : Permutation ks1 ks2 -> fold_left pick ks1 None = fold_left pick ks2 None.
+Proof.
+  intros Hp. destruct ks1 as [|k1 r1], ks2 as [|k2 r2]; try reflexivity.
+  - apply Permutation_nil in Hp. discriminate.
+  - apply Permutation_sym, Permutation_nil in Hp. discriminate.
+  - cbn [fold_left pick]. destruct (fold_pick_some r1 k1) as (m1 & E1). destruct (fold_pick_some r2 k2) as (m2 & E2).
+    rewrite E1, E2. f_equal. destruct (fold_pick_max _ _ _ E1) as [A1 B1]. destruct (fold_pick_max _ _ _ E2) as [A2 B2].
+    assert (I1 : In m1 (k2 :: r2)) by (eapply Permutation_in; [exact Hp|]; destruct A1 as [->|A1]; [now left | now right]).
+    assert (I2 : In m2 (k1 :: r1)) by (eapply Permutation_in; [apply Permutation_sym, Hp|]; destruct A2 as [->|A2]; [now left | now right]).
+    apply key_trichotomy.
+    + apply B2. destruct I1 as [<-|I1]; auto.
+    + apply B1. destruct I2 as [<-|I2]; auto.
+Qed.
+
+Lemma keys_perm l l' : Permutation l l' -> Permutation (keys l) (keys l').
+Proof.
+  induction 1 as [|[n b] l l' Hp IH|[n1 b1] [n2 b2] l|l1 l2 l3 H1 IH1 H2 IH2]; cbn [keys].
+  - constructor.
+  - destruct (ends_with md_suffix n); [|exact IH]. destruct b; [now constructor | exact IH].
+  - destruct (ends_with md_suffix n1), (ends_with md_suffix n2), b1, b2; try reflexivity. apply perm_swap.
+  - eapply Permutation_trans; eauto.
+Qed.
+Lemma existsb_perm {A} (p : A -> bool) l l' : Permutation l l' -> existsb p l = existsb p l'.
+Proof.
+  intros Hp. destruct (existsb p l) eqn:E1, (existsb p l') eqn:E2; try reflexivity.
+  - apply existsb_exists in E1 as (x & Hx & Px). assert (existsb p l' = true) by (apply existsb_exists; exists x; split; [eapply Permutation_in; eauto | exact Px]). congruence.
+  - apply existsb_exists in E2 as (x & Hx & Px). assert (existsb p l = true) by (apply existsb_exists; exists x; split; [eapply Permutation_in; [apply Permutation_sym|]; eauto | exact Px]). congruence.
+Qed.
+
+Theorem latest_metadata_listing_order t l' : Permutation (t_meta t) l' ->
+  latest_metadata t = latest_metadata (mkTable (t_dir t) (t_hint t) l' (t_lists t) (t_mans t) (t_data t)).
+Proof.
+  intros Hp. unfold latest_metadata. cbn [t_hint t_meta]. destruct (t_hint t) as [hn|].
+  - unfold name_lookup.
+    destruct (find (fun kv => bytes_eqb (hint_candidate hn) (fst kv)) (t_meta t)) as [x|] eqn:E1;
+    destruct (find (fun kv => bytes_eqb (hint_candidate hn) (fst kv)) l') as [y|] eqn:E2; try reflexivity; exfalso.
+    + apply find_some in E1 as [Hin Hx]. pose proof (find_none _ _ E2 x (Permutation_in _ Hp Hin)) as Hf. cbn beta in Hf. congruence.
+    + apply find_some in E2 as [Hin Hy]. pose proof (find_none _ _ E1 y (Permutation_in _ (Permutation_sym Hp) Hin)) as Hf. cbn beta in Hf. congruence.
+  - destruct (existsb is_bad (t_meta t)) eqn:Eb.
+    + rewrite scan_meta_bad by exact Eb. rewrite scan_meta_bad; [reflexivity|]. now rewrite <- (existsb_perm _ _ _ Hp).
+    + rewrite scan_meta_ok by exact Eb. rewrite scan_meta_ok by (now rewrite <- (existsb_perm _ _ _ Hp)).
+      now rewrite (fold_pick_perm _ _ (keys_perm _ _ Hp)).
 Qed.
